@@ -1,1912 +1,9 @@
-import Dcg.Sem.Pyd
+import Dcg.Proofs.SemValid
+import Dcg.Proofs.SemSound
+import Dcg.Proofs.SemDump
+import Dcg.Proofs.SemEnv
+import Dcg.Proofs.SemReport
 /-
-Helper lemmas for C03 / C04 / C14: three-valued logic, association lists, the constraint tables
-as a decidable side condition (`tableOK`), and one lemma per schema constructor for
-`valid_accepted`.
+Helper lemmas for C03 / C04 / C14 (umbrella): SemBase (three-valued logic, association lists, the
+constraint tables as a decidable side condition), SemValid (C03), SemOpts (C14), SemSound (C04).
 -/
-namespace Dcg.Proofs.Sem
-open Dcg.Sem Dcg.Sem.Pyd Dcg.Model.Constraints Dcg.Model.Translate
-
-/-! ### Tri -/
-
-theorem and_ne_reject {a b : Tri} : Tri.and a b ≠ .reject ↔ a ≠ .reject ∧ b ≠ .reject := by
-  cases a <;> cases b <;> simp [Tri.and]
-
-theorem all_ne_reject {xs : List Tri} : Tri.all xs ≠ .reject ↔ ∀ x ∈ xs, x ≠ .reject := by
-  induction xs with
-  | nil => simp [Tri.all]
-  | cons x xs ih =>
-    have : Tri.all (x :: xs) = Tri.and x (Tri.all xs) := rfl
-    rw [this, and_ne_reject, ih]
-    simp
-
-theorem or_ne_reject {a b : Tri} : Tri.or a b ≠ .reject ↔ a ≠ .reject ∨ b ≠ .reject := by
-  cases a <;> cases b <;> simp [Tri.or]
-
-theorem any_ne_reject {xs : List Tri} : Tri.any xs ≠ .reject ↔ ∃ x ∈ xs, x ≠ .reject := by
-  induction xs with
-  | nil => simp [Tri.any]
-  | cons x xs ih =>
-    have : Tri.any (x :: xs) = Tri.or x (Tri.any xs) := rfl
-    rw [this, or_ne_reject, ih]
-    simp
-
-theorem ofBool_ne_reject {b : Bool} : Tri.ofBool b ≠ .reject ↔ b = true := by
-  cases b <;> simp [Tri.ofBool]
-
-/-! ### association lists -/
-
-theorem lookup_mem {α : Type} (kvs : List (List Char × α)) (k : List Char) (v : α)
-    (h : kvs.lookup k = some v) : (k, v) ∈ kvs := by
-  induction kvs with
-  | nil => simp [List.lookup] at h
-  | cons p ps ih =>
-    obtain ⟨k', v'⟩ := p
-    simp only [List.lookup] at h
-    split at h
-    · rename_i heq
-      have : k = k' := by simpa using heq
-      simp at h
-      subst this; subst h
-      simp
-    · exact List.mem_cons_of_mem _ (ih h)
-
-theorem mem_lookup_of_nodup {α : Type} (ps : List (List Char × α)) (k : List Char) (v : α)
-    (hn : namesNodup (ps.map (·.1)) = true) (h : (k, v) ∈ ps) : ps.lookup k = some v := by
-  induction ps with
-  | nil => simp at h
-  | cons p ps ih =>
-    obtain ⟨k', v'⟩ := p
-    simp only [List.map, namesNodup, Bool.and_eq_true, Bool.not_eq_true'] at hn
-    simp only [List.mem_cons, Prod.mk.injEq] at h
-    cases h with
-    | inl h =>
-      obtain ⟨rfl, rfl⟩ := h
-      simp [List.lookup]
-    | inr h =>
-      have hne : k ≠ k' := by
-        intro heq
-        subst heq
-        have : (ps.map (·.1)).contains k = true := by
-          simp only [List.contains_iff_mem, List.mem_map]
-          exact ⟨(k, v), h, rfl⟩
-        rw [this] at hn
-        exact absurd hn.1 (by simp)
-      simp only [List.lookup]
-      have : (k == k') = false := by simpa using hne
-      rw [this]
-      exact ih hn.2 h
-
-theorem lookup_trDefs (st : Style) (o : Opts) (defs : Defs) (n : List Char) :
-    (trDefs st o defs).lookup n = (defs.lookup n).map (tr st o .top) := by
-  induction defs with
-  | nil => simp [trDefs, List.lookup]
-  | cons p ps ih =>
-    simp only [trDefs, List.lookup]
-    split <;> simp_all
-
-theorem propsInSubset_mem {ps : List (List Char × Schema)} (h : Schema.propsInSubset ps = true)
-    {p : List Char × Schema} (hp : p ∈ ps) : p.2.inSubset = true := by
-  induction ps with
-  | nil => simp at hp
-  | cons q qs ih =>
-    simp only [Schema.propsInSubset, Bool.and_eq_true] at h
-    cases List.mem_cons.mp hp with
-    | inl e => subst e; exact h.1
-    | inr e => exact ih h.2 e
-
-theorem allInSubset_mem {ss : List Schema} (h : Schema.allInSubset ss = true)
-    {s : Schema} (hs : s ∈ ss) : s.inSubset = true := by
-  induction ss with
-  | nil => simp at hs
-  | cons q qs ih =>
-    simp only [Schema.allInSubset, Bool.and_eq_true] at h
-    cases List.mem_cons.mp hs with
-    | inl e => subst e; exact h.1
-    | inr e => exact ih h.2 e
-
-theorem defs_lookup_inSubset {defs : Defs} (h : defsInSubset defs = true) {n : List Char}
-    {s : Schema} (hl : defs.lookup n = some s) : s.inSubset = true :=
-  propsInSubset_mem (p := (n, s)) h (lookup_mem defs n s hl)
-
-theorem trAlts_eq_map (st : Style) (o : Opts) (alts : List Schema) :
-    trAlts st o alts = alts.map (tr st o (.item false)) := by
-  induction alts with
-  | nil => simp [trAlts]
-  | cons a as ih => simp [trAlts, ih]
-
-theorem trProps_eq_map (st : Style) (o : Opts) (req : List (List Char))
-    (ps : List (List Char × Schema)) :
-    trProps st o req ps = ps.map (fun p =>
-      (p.1, req.contains p.1 && !constDefaulted st p.2, fieldCons st o p.2, tr st o .plain p.2)) := by
-  induction ps with
-  | nil => simp [trProps]
-  | cons a as ih => simp [trProps, ih]
-
-end Dcg.Proofs.Sem
-
-namespace Dcg.Proofs.Sem
-open Dcg.Sem Dcg.Sem.Pyd Dcg.Model.Constraints Dcg.Model.Translate
-
-/-! ### the constraint tables as a decidable side condition -/
-
-def patKw : Style → String
-  | .v1 => "regex"
-  | .v2 => "pattern"
-
-def minItemsKw : Style → String
-  | .v1 => "min_items"
-  | .v2 => "min_length"
-
-def maxItemsKw : Style → String
-  | .v1 => "max_items"
-  | .v2 => "max_length"
-
-/-- What `valid_accepted` needs from the generated tables (`kwargs_schema_to_model`, the filter
-sets, the `Constraints` alias maps): every supported keyword is routed to the pydantic keyword
-that enforces it. Decidable; re-checked by the kernel against the tables of the current tree. -/
-def TableOK (st : Style) : Prop :=
-  (conTypeKw st .int "minimum" = some "ge" ∧ conTypeKw st .int "maximum" = some "le" ∧
-   conTypeKw st .int "exclusiveMinimum" = some "gt" ∧ conTypeKw st .int "exclusiveMaximum" = some "lt" ∧
-   conTypeKw st .int "multipleOf" = some "multiple_of") ∧
-  (conTypeKw st .num "minimum" = some "ge" ∧ conTypeKw st .num "maximum" = some "le" ∧
-   conTypeKw st .num "exclusiveMinimum" = some "gt" ∧ conTypeKw st .num "exclusiveMaximum" = some "lt" ∧
-   conTypeKw st .num "multipleOf" = some "multiple_of") ∧
-  (conTypeKw st .str "minLength" = some "min_length" ∧ conTypeKw st .str "maxLength" = some "max_length" ∧
-   conTypeKw st .str "pattern" = some (patKw st)) ∧
-  (fieldKw st "minimum" = some "ge" ∧ fieldKw st "maximum" = some "le" ∧
-   fieldKw st "exclusiveMinimum" = some "gt" ∧ fieldKw st "exclusiveMaximum" = some "lt" ∧
-   fieldKw st "multipleOf" = some "multiple_of") ∧
-  (fieldKw st "minLength" = some "min_length" ∧ fieldKw st "maxLength" = some "max_length" ∧
-   fieldKw st "pattern" = some (patKw st)) ∧
-  (fieldKw st "minItems" = some (minItemsKw st) ∧ fieldKw st "maxItems" = some (maxItemsKw st)) ∧
-  (extraOf st .absent ≠ .forbid ∧ extraOf st .allow ≠ .forbid) ∧
-  extraOf st .forbid = .forbid
-
-instance (st : Style) : Decidable (TableOK st) := by unfold TableOK; infer_instance
-
-theorem ofInt_trunc_of_integral (v : Dec) (h : (v.e == 0) = true) : Dec.ofInt v.trunc = v := by
-  obtain ⟨m, e⟩ := v
-  have : e = 0 := by simpa using h
-  subst this
-  simp [Dec.ofInt, Dec.trunc]
-
-theorem checkNum_empty (x : Dec) : checkNum {} x = true := by simp [checkNum]
-
-theorem checkStr_empty (st : Style) (re : Regex) (s : List Char) : checkStr st re {} s = true := by
-  cases st <;> simp [checkStr, patOf]
-
-theorem checkLen_empty (st : Style) (n : Nat) : checkLen st {} n = true := by
-  cases st <;> simp [checkLen]
-
-theorem checkCons_empty (st : Style) (re : Regex) (v : Json) : checkCons st re {} v = .accept := by
-  cases v <;> simp [checkCons, checkNum_empty, checkStr_empty, checkLen_empty, Tri.ofBool]
-
-end Dcg.Proofs.Sem
-
-namespace Dcg.Proofs.Sem
-open Dcg.Sem Dcg.Sem.Pyd Dcg.Model.Constraints Dcg.Model.Translate
-
-/-! ### constraints written through the tables are the constraints of the schema -/
-
-theorem checkNum_consOfBounds (route : String → Option String) (cast : String → Dec → Dec)
-    (b : Bounds) (x : Dec)
-    (h1 : route "minimum" = some "ge") (h2 : route "maximum" = some "le")
-    (h3 : route "exclusiveMinimum" = some "gt") (h4 : route "exclusiveMaximum" = some "lt")
-    (h5 : route "multipleOf" = some "multiple_of")
-    (hns : b.noString = true)
-    (hc : ∀ pk d, (d ∈ b.minimum ∨ d ∈ b.maximum ∨ d ∈ b.exclMin ∨ d ∈ b.exclMax ∨ d ∈ b.multipleOf) → cast pk d = d) :
-    checkNum (consOfBounds route cast b) x = numOK b x := by
-  obtain ⟨mn, mx, xmn, xmx, mul, minl, maxl, pat⟩ := b
-  simp only [Bounds.noString, Bool.and_eq_true, Option.isNone_iff_eq_none] at hns
-  obtain ⟨⟨rfl, rfl⟩, rfl⟩ := hns
-  cases mn <;> cases mx <;> cases xmn <;> cases xmx <;> cases mul <;>
-    simp_all [consOfBounds, put, Cons.set, checkNum, numOK]
-
-theorem checkStr_consOfBounds (st : Style) (re : Regex) (route : String → Option String)
-    (cast : String → Dec → Dec) (b : Bounds) (s : List Char)
-    (h1 : route "minLength" = some "min_length") (h2 : route "maxLength" = some "max_length")
-    (h3 : route "pattern" = some (patKw st)) (hnn : b.noNumeric = true) :
-    checkStr st re (consOfBounds route cast b) s = strOK re b s := by
-  obtain ⟨mn, mx, xmn, xmx, mul, minl, maxl, pat⟩ := b
-  simp only [Bounds.noNumeric, Bool.and_eq_true, Option.isNone_iff_eq_none] at hnn
-  obtain ⟨⟨⟨⟨rfl, rfl⟩, rfl⟩, rfl⟩, rfl⟩ := hnn
-  cases st <;> cases minl <;> cases maxl <;> cases pat <;>
-    simp_all [consOfBounds, put, Cons.set, checkStr, strOK, patKw, patOf]
-
-theorem checkLen_consOfItems (st : Style) (route : String → Option String) (mn mx : Option Nat)
-    (n : Nat) (h1 : route "minItems" = some (minItemsKw st))
-    (h2 : route "maxItems" = some (maxItemsKw st)) :
-    checkLen st (consOfItems route mn mx) n = lenOK mn mx n := by
-  cases st <;> cases mn <;> cases mx <;>
-    simp_all [consOfItems, put, Cons.set, checkLen, lenOK, minItemsKw, maxItemsKw]
-
-theorem castValue_integral (r : Routing) (fam : Fam) (pk : String) (d : Dec)
-    (h : (d.e == 0) = true) : castValue r fam pk d = d := by
-  cases fam <;> cases r <;> simp [castValue, ofInt_trunc_of_integral d h] <;> split <;> simp
-
-theorem integral_mem (b : Bounds) (h : b.integral = true) (d : Dec)
-    (hd : d ∈ b.minimum ∨ d ∈ b.maximum ∨ d ∈ b.exclMin ∨ d ∈ b.exclMax ∨ d ∈ b.multipleOf) :
-    (d.e == 0) = true := by
-  simp only [Bounds.integral, decIntegral, Bool.and_eq_true] at h
-  obtain ⟨⟨⟨⟨h1, h2⟩, h3⟩, h4⟩, h5⟩ := h
-  rcases hd with hd | hd | hd | hd | hd <;> simp only [Option.mem_def] at hd
-  · rw [hd] at h1; simpa using h1
-  · rw [hd] at h2; simpa using h2
-  · rw [hd] at h3; simpa using h3
-  · rw [hd] at h4; simpa using h4
-  · rw [hd] at h5; simpa using h5
-
-end Dcg.Proofs.Sem
-
-namespace Dcg.Proofs.Sem
-open Dcg.Sem Dcg.Sem.Pyd Dcg.Model.Constraints Dcg.Model.Translate
-
-/-! ### scalars -/
-
-/-- the constrained type accepts every non-null value the scalar schema admits -/
-theorem acceptsScalar_typeCons (st : Style) (o : Opts) (re : Regex) (h : TableOK st) (ty : STy)
-    (b : Bounds) (v : Json) (hok : scalarOK ty b = true) (hv : validScalar re ty b v = true) :
-    acceptsScalar st re ty (typeCons st o ty b) v ≠ .reject := by
-  obtain ⟨⟨i1, i2, i3, i4, i5⟩, ⟨n1, n2, n3, n4, n5⟩, ⟨s1, s2, s3⟩, _, _, _, _, _⟩ := h
-  unfold typeCons
-  cases hfc : o.fieldConstraints
-  · -- constrained types
-    cases ty <;> cases v <;> simp [validScalar] at hv <;>
-      simp only [scalarOK, Bool.and_eq_true] at hok <;>
-      simp only [famOf, acceptsScalar, Bool.false_eq_true, if_false]
-    · obtain ⟨hi, hn⟩ := hv
-      rw [checkNum_consOfBounds _ _ _ _ i1 i2 i3 i4 i5 hok.1
-        (fun pk d hd => castValue_integral _ _ _ _ (integral_mem _ hok.2 d hd))]
-      simp [hi, hn, Tri.ofBool]
-    · rw [checkNum_consOfBounds _ _ _ _ n1 n2 n3 n4 n5 hok (fun pk d _ => by simp [castValue])]
-      simp [hv, Tri.ofBool]
-    · rw [checkStr_consOfBounds st re _ _ _ _ s1 s2 s3 hok]
-      simp [hv, Tri.ofBool]
-    · simp
-  · cases ty <;> cases v <;> simp [validScalar] at hv <;>
-      simp [acceptsScalar, checkNum_empty, checkStr_empty, Tri.ofBool, hv]
-
-/-- the `Field()` arguments of a scalar member accept every non-null value the schema admits -/
-theorem checkCons_fieldConsOfBounds (st : Style) (re : Regex) (h : TableOK st) (ty : STy)
-    (b : Bounds) (v : Json) (hok : scalarOK ty b = true) (hv : validScalar re ty b v = true) :
-    checkCons st re (fieldConsOfBounds st ty b) v ≠ .reject := by
-  obtain ⟨_, _, _, ⟨f1, f2, f3, f4, f5⟩, ⟨g1, g2, g3⟩, _, _, _⟩ := h
-  unfold fieldConsOfBounds
-  cases ty <;> cases v <;> simp [validScalar] at hv <;>
-    simp only [scalarOK, Bool.and_eq_true] at hok <;>
-    simp only [famOf, checkCons, Option.getD]
-  · rw [checkNum_consOfBounds _ _ _ _ f1 f2 f3 f4 f5 hok.1
-      (fun pk d hd => castValue_integral _ _ _ _ (integral_mem _ hok.2 d hd))]
-    simp [hv.2, Tri.ofBool]
-  · rw [checkNum_consOfBounds _ _ _ _ f1 f2 f3 f4 f5 hok (fun pk d _ => by simp [castValue])]
-    simp [hv, Tri.ofBool]
-  · rw [checkStr_consOfBounds st re _ _ _ _ g1 g2 g3 hok]
-    simp [hv, Tri.ofBool]
-  · simp
-
-end Dcg.Proofs.Sem
-
-namespace Dcg.Proofs.Sem
-open Dcg.Sem Dcg.Sem.Pyd Dcg.Model.Constraints Dcg.Model.Translate
-
-/-! ### `valid_accepted`: one lemma per schema constructor -/
-
-section
-variable (st : Style) (o : Opts) (re : Regex) (defs : Defs)
-
-/-- the statement proved by induction on the fuel `g` of the accepting side -/
-def IH (g : Nat) : Prop :=
-  ∀ f ctx s v, s.inSubset = true → validJ re f defs s v = true →
-    acceptsTy st re g (trDefs st o defs) (tr st o ctx s) v ≠ .reject
-
-def IHle (g : Nat) : Prop := ∀ g', g' ≤ g → IH st o re defs g'
-
-theorem validScalar_null (ty : STy) (b : Bounds) : validScalar re ty b .null = false := by
-  cases ty <;> simp [validScalar]
-
-theorem acceptsTy_scalarCore (h : TableOK st) (ty : STy) (nullable : Bool) (b : Bounds) (v : Json)
-    (hok : scalarOK ty b = true)
-    (hv : ((nullable && v.isNull) || validScalar re ty b v) = true) (g : Nat) (D : IRDefs) :
-    acceptsTy st re g D (scalarCore st o ty nullable b) v ≠ .reject := by
-  cases g with
-  | zero => simp [acceptsTy]
-  | succ g =>
-    unfold scalarCore
-    cases nullable with
-    | false =>
-      simp only [Bool.false_and, Bool.false_or] at hv
-      simp only [Bool.false_eq_true, if_false, acceptsTy]
-      exact acceptsScalar_typeCons st o re h ty b v hok hv
-    | true =>
-      simp only [if_true, acceptsTy]
-      cases hn : v.isNull with
-      | true => simp
-      | false =>
-        simp only [hn, Bool.and_false, Bool.false_or] at hv
-        simp only [Bool.false_eq_true, if_false]
-        cases g with
-        | zero => simp [acceptsTy]
-        | succ g =>
-          simp only [acceptsTy]
-          exact acceptsScalar_typeCons st o re h ty b v hok hv
-
-theorem checkCons_rootCons_scalar (h : TableOK st) (ty : STy) (nullable : Bool) (b : Bounds)
-    (v : Json) (hok : scalarOK ty b = true)
-    (hv : ((nullable && v.isNull) || validScalar re ty b v) = true) :
-    checkCons st re (rootCons o (fieldConsOfBounds st ty b)) v ≠ .reject := by
-  unfold rootCons
-  cases o.fieldConstraints with
-  | false => simp [checkCons_empty]
-  | true =>
-    simp only [if_true]
-    cases hn : v.isNull with
-    | true => cases v <;> simp [Json.isNull] at hn; simp [checkCons]
-    | false =>
-      simp only [hn, Bool.and_false, Bool.false_or] at hv
-      exact checkCons_fieldConsOfBounds st re h ty b v hok hv
-
-theorem scalar_case (h : TableOK st) (g : Nat) (ctx : Ctx) (ty : STy) (nullable : Bool)
-    (b : Bounds) (v : Json) (D : IRDefs) (hok : scalarOK ty b = true)
-    (hv : ((nullable && v.isNull) || validScalar re ty b v) = true) :
-    acceptsTy st re (g + 1) D (tr st o ctx (.scalar ty nullable b)) v ≠ .reject := by
-  have hcore := acceptsTy_scalarCore st o re h ty nullable b v hok hv
-  have hroot := checkCons_rootCons_scalar st o re h ty nullable b v hok hv
-  cases ctx with
-  | top =>
-    simp only [tr, acceptsTy]
-    exact and_ne_reject.mpr ⟨hcore g D, hroot⟩
-  | plain =>
-    simp only [tr]
-    exact hcore (g + 1) D
-  | item phc =>
-    simp only [tr]
-    split
-    · simp only [acceptsTy]
-      exact and_ne_reject.mpr ⟨hcore g D, hroot⟩
-    · exact hcore (g + 1) D
-
-
-end
-end Dcg.Proofs.Sem
-
-namespace Dcg.Proofs.Sem
-open Dcg.Sem Dcg.Sem.Pyd Dcg.Model.Constraints Dcg.Model.Translate
-
-section
-variable (st : Style) (o : Opts) (re : Regex) (defs : Defs)
-
-/-- a list type accepts an array all of whose items are valid, at any fuel `k ≤ g + 1` -/
-theorem list_ne (g : Nat) (ih : IHle st o re defs g) (ctx : Ctx) (items : Schema) (f : Nat)
-    (xs : List Json) (hsub : items.inSubset = true)
-    (hv : xs.all (fun x => validJ re f defs items x) = true) (k : Nat) (hk : k ≤ g + 1) :
-    acceptsTy st re k (trDefs st o defs) (.list (tr st o ctx items)) (.arr xs) ≠ .reject := by
-  cases k with
-  | zero => simp [acceptsTy]
-  | succ k =>
-    simp only [acceptsTy]
-    rw [all_ne_reject]
-    intro t ht
-    simp only [List.mem_map] at ht
-    obtain ⟨x, hx, rfl⟩ := ht
-    have hvx : validJ re f defs items x = true := by
-      rw [List.all_eq_true] at hv
-      exact hv x hx
-    exact ih k (by omega) f ctx items x hsub hvx
-
-theorem array_case (h : TableOK st) (g : Nat) (ih : IHle st o re defs g) (ctx : Ctx)
-    (items : Schema) (mn mx : Option Nat) (f : Nat) (v : Json) (hsub : items.inSubset = true)
-    (hv : validJ re (f + 1) defs (.array items mn mx) v = true) :
-    acceptsTy st re (g + 1) (trDefs st o defs) (tr st o ctx (.array items mn mx)) v ≠ .reject := by
-  obtain ⟨_, _, _, _, _, ⟨a1, a2⟩, _, _⟩ := h
-  cases v <;> simp [validJ] at hv
-  rename_i xs
-  obtain ⟨hlen, hall⟩ := hv
-  have hall' : xs.all (fun x => validJ re f defs items x) = true := by
-    rw [List.all_eq_true]; intro x hx; exact hall x hx
-  have hl := list_ne st o re defs g ih (.item (mn.isSome || mx.isSome)) items f xs hsub hall'
-  have hc : ∀ c, c = consOfItems (fieldKw st) mn mx → checkCons st re (rootCons o c) (.arr xs) ≠ .reject := by
-    intro c hc
-    unfold rootCons
-    cases o.fieldConstraints <;> simp [checkCons_empty]
-    subst hc
-    simp [checkCons, checkLen_consOfItems st _ mn mx _ a1 a2, hlen, Tri.ofBool]
-  cases ctx with
-  | top =>
-    simp only [tr, acceptsTy]
-    refine and_ne_reject.mpr ⟨hl g (by omega), ?_⟩
-    simp [checkCons, checkLen_consOfItems st _ mn mx _ a1 a2, hlen, Tri.ofBool]
-  | plain =>
-    simp only [tr]
-    exact hl (g + 1) (by omega)
-  | item phc =>
-    simp only [tr]
-    split
-    · simp only [acceptsTy]
-      exact and_ne_reject.mpr ⟨hl g (by omega), hc _ rfl⟩
-    · exact hl (g + 1) (by omega)
-
-/-- the `Field()` arguments of a member accept every value its schema admits -/
-theorem checkCons_fieldCons (h : TableOK st) (s : Schema) (hsub : s.inSubset = true) (f : Nat)
-    (x : Json) (hv : validJ re f defs s x = true) :
-    checkCons st re (fieldCons st o s) x ≠ .reject := by
-  cases f with
-  | zero => simp [validJ] at hv
-  | succ f =>
-    cases s <;> simp only [fieldCons, checkCons_empty, ne_eq, not_false_eq_true, reduceCtorEq]
-    · -- scalar
-      rename_i ty nullable b
-      simp only [validJ] at hv
-      simp only [Schema.inSubset] at hsub
-      cases o.fieldConstraints with
-      | false => simp [checkCons_empty]
-      | true =>
-        simp only [if_true]
-        cases hn : x.isNull with
-        | true => cases x <;> simp [Json.isNull] at hn; simp [checkCons]
-        | false =>
-          simp only [hn, Bool.and_false, Bool.false_or] at hv
-          exact checkCons_fieldConsOfBounds st re h ty b x hsub hv
-    · -- array
-      rename_i items mn mx
-      obtain ⟨_, _, _, _, _, ⟨a1, a2⟩, _, _⟩ := h
-      cases x <;> simp [validJ] at hv
-      simp [checkCons, checkLen_consOfItems st _ mn mx _ a1 a2, hv.1, Tri.ofBool]
-
-
-end
-end Dcg.Proofs.Sem
-
-namespace Dcg.Proofs.Sem
-open Dcg.Sem Dcg.Sem.Pyd Dcg.Model.Constraints Dcg.Model.Translate
-
-section
-variable (st : Style) (o : Opts) (re : Regex) (defs : Defs)
-
-theorem object_case (h : TableOK st) (g : Nat) (ih : IHle st o re defs g) (ctx : Ctx)
-    (props : List (List Char × Schema)) (req : List (List Char)) (addl : Addl) (f : Nat) (v : Json)
-    (hsub : (Schema.object props req addl).inSubset = true)
-    (hv : validJ re (f + 1) defs (.object props req addl) v = true) :
-    acceptsTy st re (g + 1) (trDefs st o defs) (tr st o ctx (.object props req addl)) v ≠ .reject := by
-  simp only [Schema.inSubset, Bool.and_eq_true] at hsub
-  obtain ⟨⟨hps, _⟩, _⟩ := hsub
-  cases v <;> simp only [validJ, Bool.false_eq_true] at hv
-  rename_i kvs
-  simp only [Bool.and_eq_true, List.all_eq_true] at hv
-  obtain ⟨⟨hreq, hprops⟩, hextra⟩ := hv
-  simp only [tr, acceptsTy]
-  refine and_ne_reject.mpr ⟨?_, ?_⟩
-  · -- every declared member
-    rw [all_ne_reject, trProps_eq_map]
-    intro t ht
-    simp only [List.map_map, List.mem_map, Function.comp] at ht
-    obtain ⟨p, hp, rfl⟩ := ht
-    obtain ⟨nm, s⟩ := p
-    simp only
-    have hpx := hprops (nm, s) hp
-    simp only at hpx
-    cases hl : kvs.lookup nm with
-    | none =>
-      simp only
-      cases hr : req.contains nm with
-      | false => simp
-      | true =>
-        have : nm ∈ req := by simpa using hr
-        have := hreq nm this
-        simp [hasKey, hl] at this
-    | some x =>
-      simp only
-      split
-      · simp
-      · rw [hl] at hpx
-        simp only at hpx
-        have hs : s.inSubset = true := propsInSubset_mem (p := (nm, s)) hps hp
-        exact and_ne_reject.mpr ⟨ih g (Nat.le_refl _) f .plain s x hs hpx,
-          checkCons_fieldCons st o re defs h s hs f x hpx⟩
-  · -- extra members
-    have hnames : (trProps st o req props).map (·.1) = props.map (·.1) := by
-      rw [trProps_eq_map, List.map_map]; rfl
-    rw [hnames]
-    obtain ⟨_, _, _, _, _, _, ⟨e1, e2⟩, _⟩ := h
-    cases hex : extraOf st addl == Extra.forbid with
-    | false => simp
-    | true =>
-      have haddl : addl = .forbid := by
-        have hx : extraOf st addl = .forbid := by simpa using hex
-        cases addl with
-        | absent => exact absurd hx e1
-        | allow => exact absurd hx e2
-        | forbid => rfl
-      subst haddl
-      simp only [if_true]
-      rw [ofBool_ne_reject, List.all_eq_true]
-      simpa using hextra
-
-/-- own fields of a class: each declared member that is present is accepted, each required one is
-present (shared by the object and the allOf case) -/
-theorem fields_ne_reject (h : TableOK st) (g : Nat) (ih : IHle st o re defs g)
-    (props : List (List Char × Schema)) (rq : List (List Char)) (kvs : List (List Char × Json)) (f : Nat)
-    (hps : Schema.propsInSubset props = true)
-    (hreq : ∀ k ∈ rq, hasKey kvs k = true)
-    (hprops : ∀ p ∈ props, (match kvs.lookup p.1 with
-      | some x => validJ re f defs p.2 x
-      | none => true) = true) :
-    Tri.all ((trProps st o rq props).map (fun fld =>
-      match kvs.lookup fld.1 with
-      | none => if fld.2.1 then (if isOpt fld.2.2.2 then .laxZone else .reject) else .accept
-      | some x =>
-        if x.isNull && !fld.2.1 && !isConst fld.2.2.2 then .accept
-        else Tri.and (acceptsTy st re g (trDefs st o defs) fld.2.2.2 x) (checkCons st re fld.2.2.1 x)))
-      ≠ .reject := by
-  rw [all_ne_reject, trProps_eq_map]
-  intro t ht
-  simp only [List.map_map, List.mem_map, Function.comp] at ht
-  obtain ⟨p, hp, rfl⟩ := ht
-  obtain ⟨nm, s⟩ := p
-  simp only
-  have hpx := hprops (nm, s) hp
-  simp only at hpx
-  cases hl : kvs.lookup nm with
-  | none =>
-    simp only
-    cases hr : rq.contains nm with
-    | false => simp
-    | true =>
-      have : nm ∈ rq := by simpa using hr
-      have := hreq nm this
-      simp [hasKey, hl] at this
-  | some x =>
-    simp only
-    split
-    · simp
-    · rw [hl] at hpx
-      simp only at hpx
-      have hs : s.inSubset = true := propsInSubset_mem (p := (nm, s)) hps hp
-      exact and_ne_reject.mpr ⟨ih g (Nat.le_refl _) f .plain s x hs hpx,
-        checkCons_fieldCons st o re defs h s hs f x hpx⟩
-
-theorem allOf_case (h : TableOK st) (hd : defsInSubset defs = true) (g : Nat)
-    (ih : IHle st o re defs g) (ctx : Ctx) (refs : List (List Char))
-    (props : List (List Char × Schema)) (req xreq : List (List Char)) (f : Nat) (v : Json)
-    (hsub : (Schema.allOf refs props req xreq).inSubset = true)
-    (hv : validJ re (f + 1) defs (.allOf refs props req xreq) v = true) :
-    acceptsTy st re (g + 1) (trDefs st o defs) (tr st o ctx (.allOf refs props req xreq)) v ≠ .reject := by
-  simp only [Schema.inSubset, Bool.and_eq_true] at hsub
-  obtain ⟨⟨hps, _⟩, _⟩ := hsub
-  cases v <;> simp only [validJ, Bool.false_eq_true] at hv
-  rename_i kvs
-  simp only [Bool.and_eq_true, List.all_eq_true] at hv
-  obtain ⟨⟨⟨hrefs, hreq⟩, hxreq⟩, hprops⟩ := hv
-  -- a referenced part accepts the value
-  have hbase : ∀ r ∈ refs, (match (trDefs st o defs).lookup r with
-      | some d => acceptsTy st re g (trDefs st o defs) d (.obj kvs)
-      | none => .reject) ≠ .reject := by
-    intro r hr
-    have := hrefs r hr
-    rw [lookup_trDefs]
-    cases hl : defs.lookup r with
-    | none => simp [hl] at this
-    | some t =>
-      simp only [hl] at this
-      simp only [Option.map]
-      exact ih g (Nat.le_refl _) f .top t (.obj kvs) (defs_lookup_inSubset hd hl) this
-  have hder : acceptsTy st re (g + 1) (trDefs st o defs)
-      (.derived refs (trProps st o (req ++ xreq) props) .unset) (.obj kvs) ≠ .reject := by
-    simp only [acceptsTy]
-    refine and_ne_reject.mpr ⟨?_, ?_⟩
-    · rw [all_ne_reject]
-      intro t ht
-      simp only [List.mem_map] at ht
-      obtain ⟨r, hr, rfl⟩ := ht
-      exact hbase r hr
-    · refine fields_ne_reject st o re defs h g ih props (req ++ xreq) kvs f hps ?_ hprops
-      intro k hk
-      cases List.mem_append.mp hk with
-      | inl e => exact hreq k e
-      | inr e => exact hxreq k e
-  cases ctx with
-  | top => simpa only [tr] using hder
-  | plain =>
-    cases refs with
-    | nil => simpa only [tr] using hder
-    | cons r rs =>
-      cases rs with
-      | cons r2 rs2 => simpa only [tr] using hder
-      | nil =>
-        cases props with
-        | cons p ps => simpa only [tr] using hder
-        | nil =>
-          simp only [tr, acceptsTy]
-          exact hbase r (by simp)
-  | item phc =>
-    cases refs with
-    | nil => simpa only [tr] using hder
-    | cons r rs =>
-      cases rs with
-      | cons r2 rs2 => simpa only [tr] using hder
-      | nil =>
-        cases props with
-        | cons p ps => simpa only [tr] using hder
-        | nil =>
-          simp only [tr, acceptsTy]
-          exact hbase r (by simp)
-
-theorem dict_case (g : Nat) (ih : IHle st o re defs g) (ctx : Ctx) (value : Schema) (f : Nat)
-    (v : Json) (hsub : value.inSubset = true)
-    (hv : validJ re (f + 1) defs (.dict value) v = true) :
-    acceptsTy st re (g + 1) (trDefs st o defs) (tr st o ctx (.dict value)) v ≠ .reject := by
-  cases v <;> simp [validJ] at hv
-  rename_i kvs
-  simp only [tr, acceptsTy]
-  rw [all_ne_reject]
-  intro t ht
-  simp only [List.mem_map] at ht
-  obtain ⟨kv, hkv, rfl⟩ := ht
-  exact ih g (Nat.le_refl _) f .plain value kv.2 hsub (hv kv.1 kv.2 hkv)
-
-theorem ref_case (hd : defsInSubset defs = true) (g : Nat) (ih : IHle st o re defs g) (ctx : Ctx)
-    (n : List Char) (f : Nat) (v : Json)
-    (hv : validJ re (f + 1) defs (.ref n) v = true) :
-    acceptsTy st re (g + 1) (trDefs st o defs) (tr st o ctx (.ref n)) v ≠ .reject := by
-  simp only [validJ] at hv
-  simp only [tr, acceptsTy, lookup_trDefs]
-  cases hl : defs.lookup n with
-  | none => simp [hl] at hv
-  | some s =>
-    simp only [hl] at hv
-    simp only [Option.map]
-    exact ih g (Nat.le_refl _) f .top s v (defs_lookup_inSubset hd hl) hv
-
-theorem union_ne (g : Nat) (ih : IHle st o re defs g) (alts : List Schema) (f : Nat) (v : Json)
-    (hsub : Schema.allInSubset alts = true)
-    (hv : ∃ a ∈ alts, validJ re f defs a v = true) :
-    acceptsTy st re (g + 1) (trDefs st o defs) (.union (trAlts st o alts)) v ≠ .reject := by
-  obtain ⟨a, ha, hva⟩ := hv
-  simp only [acceptsTy]
-  rw [any_ne_reject, trAlts_eq_map]
-  refine ⟨_, ?_, ih g (Nat.le_refl _) f (.item false) a v (allInSubset_mem hsub ha) hva⟩
-  simp only [List.map_map, List.mem_map, Function.comp]
-  exact ⟨a, ha, rfl⟩
-
-theorem countTrue_pos {bs : List Bool} (h : countTrue bs = 1) : true ∈ bs := by
-  unfold countTrue at h
-  have : (bs.filter id) ≠ [] := by intro e; rw [e] at h; simp at h
-  obtain ⟨b, hb⟩ := List.exists_mem_of_ne_nil _ this
-  rw [List.mem_filter] at hb
-  have : b = true := by simpa using hb.2
-  exact this ▸ hb.1
-
-/-- MAIN INDUCTION: for every fuel of the accepting side -/
-theorem valid_accepted_all (h : TableOK st) (hd : defsInSubset defs = true) :
-    ∀ g, IHle st o re defs g := by
-  intro g
-  induction g with
-  | zero =>
-    intro g' hg' f ctx s v _ _
-    have : g' = 0 := by omega
-    subst this
-    simp [acceptsTy]
-  | succ g ih =>
-    intro g' hg'
-    by_cases hle : g' ≤ g
-    · exact ih g' hle
-    · have : g' = g + 1 := by omega
-      subst this
-      intro f ctx s v hsub hv
-      cases f with
-      | zero => simp [validJ] at hv
-      | succ f =>
-        cases s with
-        | any => simp [tr, acceptsTy]
-        | null =>
-          simp only [validJ] at hv
-          simp [tr, acceptsTy, hv]
-        | scalar ty nullable b =>
-          simp only [validJ] at hv
-          simp only [Schema.inSubset] at hsub
-          exact scalar_case st o re h g ctx ty nullable b v _ hsub hv
-        | enum vals =>
-          simp only [validJ] at hv
-          simp [tr, acceptsTy, Tri.ofBool, hv]
-        | const a =>
-          simp only [validJ] at hv
-          simp [tr, acceptsTy, Tri.ofBool, hv]
-        | array items mn mx =>
-          simp only [Schema.inSubset] at hsub
-          exact array_case st o re defs h g ih ctx items mn mx f v hsub hv
-        | object props req addl => exact object_case st o re defs h g ih ctx props req addl f v hsub hv
-        | dict value =>
-          simp only [Schema.inSubset] at hsub
-          exact dict_case st o re defs g ih ctx value f v hsub hv
-        | ref n => exact ref_case st o re defs hd g ih ctx n f v hv
-        | anyOf alts =>
-          simp only [Schema.inSubset] at hsub
-          simp only [validJ, List.any_eq_true] at hv
-          simp only [tr]
-          exact union_ne st o re defs g ih alts f v hsub hv
-        | oneOf alts =>
-          simp only [Schema.inSubset] at hsub
-          simp only [validJ, beq_iff_eq] at hv
-          simp only [tr]
-          have := countTrue_pos hv
-          simp only [List.mem_map] at this
-          obtain ⟨a, ha, hva⟩ := this
-          exact union_ne st o re defs g ih alts f v hsub ⟨a, ha, hva⟩
-        | allOf refs props req xreq => exact allOf_case st o re defs h hd g ih ctx refs props req xreq f v hsub hv
-
-
-end
-end Dcg.Proofs.Sem
-
-namespace Dcg.Proofs.Sem
-open Dcg.Sem Dcg.Sem.Pyd Dcg.Model.Constraints Dcg.Model.Translate
-
-/-! ### C14: stage 1 reads the options only through `field_constraints` -/
-
-theorem fieldCons_congr (st : Style) (o o' : Opts) (h : o.fieldConstraints = o'.fieldConstraints)
-    (s : Schema) : fieldCons st o s = fieldCons st o' s := by
-  cases s <;> simp [fieldCons, h]
-
-mutual
-/-- stage 1 reads the option vector only through `field_constraints` -/
-theorem tr_congr (st : Style) (o o' : Opts) (h : o.fieldConstraints = o'.fieldConstraints) :
-    ∀ (ctx : Ctx) (s : Schema), tr st o ctx s = tr st o' ctx s
-  | _, .any => by simp [tr]
-  | _, .null => by simp [tr]
-  | ctx, .scalar ty n b => by
-    cases ctx <;> simp [tr, scalarCore, typeCons, rootCons, h]
-  | _, .enum _ => by simp [tr]
-  | _, .const _ => by simp [tr]
-  | ctx, .array items mn mx => by
-    cases ctx <;> simp [tr, rootCons, h, tr_congr st o o' h _ items]
-  | _, .object props req addl => by simp [tr, trProps_congr st o o' h req props]
-  | _, .dict value => by simp [tr, tr_congr st o o' h .plain value]
-  | _, .ref _ => by simp [tr]
-  | _, .anyOf alts => by simp [tr, trAlts_congr st o o' h alts]
-  | _, .oneOf alts => by simp [tr, trAlts_congr st o o' h alts]
-  | ctx, .allOf refs props req xreq => by
-    simp only [tr, trProps_congr st o o' h (req ++ xreq) props]
-theorem trProps_congr (st : Style) (o o' : Opts) (h : o.fieldConstraints = o'.fieldConstraints)
-    (req : List (List Char)) :
-    ∀ ps : List (List Char × Schema), trProps st o req ps = trProps st o' req ps
-  | [] => by simp [trProps]
-  | p :: ps => by
-    simp [trProps, tr_congr st o o' h .plain p.2, trProps_congr st o o' h req ps,
-      fieldCons_congr st o o' h p.2]
-theorem trAlts_congr (st : Style) (o o' : Opts) (h : o.fieldConstraints = o'.fieldConstraints) :
-    ∀ alts : List Schema, trAlts st o alts = trAlts st o' alts
-  | [] => by simp [trAlts]
-  | a :: as => by simp [trAlts, tr_congr st o o' h (.item false) a, trAlts_congr st o o' h as]
-end
-
-theorem trDefs_congr (st : Style) (o o' : Opts) (h : o.fieldConstraints = o'.fieldConstraints)
-    (defs : Defs) : trDefs st o defs = trDefs st o' defs := by
-  induction defs with
-  | nil => simp [trDefs]
-  | cons p ps ih => simp [trDefs, ih, tr_congr st o o' h .top p.2]
-
-
-end Dcg.Proofs.Sem
-
-namespace Dcg.Proofs.Sem
-open Dcg.Sem Dcg.Sem.Pyd Dcg.Model.Constraints Dcg.Model.Translate
-
-/-! ### C14: compatibility of verdicts -/
-
-/-- two verdicts do not contradict each other (`laxZone` = unknown is compatible with everything) -/
-def Compat (a b : Tri) : Prop := ¬(a = .accept ∧ b = .reject) ∧ ¬(a = .reject ∧ b = .accept)
-
-theorem compat_refl (a : Tri) : Compat a a := by cases a <;> simp [Compat]
-theorem compat_symm {a b : Tri} (h : Compat a b) : Compat b a := ⟨fun x => h.2 ⟨x.2, x.1⟩, fun x => h.1 ⟨x.2, x.1⟩⟩
-theorem compat_lax_left (b : Tri) : Compat .laxZone b := by simp [Compat]
-theorem compat_lax_right (a : Tri) : Compat a .laxZone := by simp [Compat]
-theorem compat_of_eq {a b : Tri} (h : a = b) : Compat a b := h ▸ compat_refl a
-
-theorem compat_and {a a' b b' : Tri} (h1 : Compat a a') (h2 : Compat b b') :
-    Compat (Tri.and a b) (Tri.and a' b') := by
-  cases a <;> cases a' <;> cases b <;> cases b' <;> simp_all [Compat, Tri.and]
-
-theorem compat_or {a a' b b' : Tri} (h1 : Compat a a') (h2 : Compat b b') :
-    Compat (Tri.or a b) (Tri.or a' b') := by
-  cases a <;> cases a' <;> cases b <;> cases b' <;> simp_all [Compat, Tri.or]
-
-theorem compat_all_map {α : Type} (xs : List α) (f f' : α → Tri)
-    (h : ∀ x ∈ xs, Compat (f x) (f' x)) : Compat (Tri.all (xs.map f)) (Tri.all (xs.map f')) := by
-  induction xs with
-  | nil => simp [Tri.all, Compat]
-  | cons x xs ih =>
-    have e1 : Tri.all ((x :: xs).map f) = Tri.and (f x) (Tri.all (xs.map f)) := rfl
-    have e2 : Tri.all ((x :: xs).map f') = Tri.and (f' x) (Tri.all (xs.map f')) := rfl
-    rw [e1, e2]
-    exact compat_and (h x (by simp)) (ih (fun y hy => h y (by simp [hy])))
-
-theorem compat_any_map {α : Type} (xs : List α) (f f' : α → Tri)
-    (h : ∀ x ∈ xs, Compat (f x) (f' x)) : Compat (Tri.any (xs.map f)) (Tri.any (xs.map f')) := by
-  induction xs with
-  | nil => simp [Tri.any, Compat]
-  | cons x xs ih =>
-    have e1 : Tri.any ((x :: xs).map f) = Tri.or (f x) (Tri.any (xs.map f)) := rfl
-    have e2 : Tri.any ((x :: xs).map f') = Tri.or (f' x) (Tri.any (xs.map f')) := rfl
-    rw [e1, e2]
-    exact compat_or (h x (by simp)) (ih (fun y hy => h y (by simp [hy])))
-
-
-end Dcg.Proofs.Sem
-
-namespace Dcg.Proofs.Sem
-open Dcg.Sem Dcg.Sem.Pyd Dcg.Model.Constraints Dcg.Model.Translate
-
-/-- fuel-free verdict of a (possibly nullable) scalar leaf with keyword arguments `kw` -/
-def coreVerdict (st : Style) (re : Regex) (ty : STy) (nullable : Bool) (kw : Cons) (v : Json) : Tri :=
-  if nullable && v.isNull then .accept else acceptsScalar st re ty kw v
-
-theorem acceptsScalar_null (st : Style) (re : Regex) (ty : STy) (kw : Cons) :
-    acceptsScalar st re ty kw .null = .reject := by
-  cases ty <;> simp [acceptsScalar]
-
-/-- with any fuel, a scalar leaf gives its fuel-free verdict or `laxZone` -/
-theorem acceptsTy_core_cases (st : Style) (o : Opts) (re : Regex) (ty : STy) (nullable : Bool)
-    (b : Bounds) (v : Json) (g : Nat) (D : IRDefs) :
-    acceptsTy st re g D (scalarCore st o ty nullable b) v = .laxZone ∨
-    acceptsTy st re g D (scalarCore st o ty nullable b) v =
-      coreVerdict st re ty nullable (typeCons st o ty b) v := by
-  cases g with
-  | zero => left; simp [acceptsTy]
-  | succ g =>
-    unfold scalarCore coreVerdict
-    cases nullable with
-    | false => right; simp [acceptsTy]
-    | true =>
-      simp only [if_true, acceptsTy, Bool.true_and]
-      cases hn : v.isNull with
-      | true => right; simp
-      | false =>
-        simp only [Bool.false_eq_true, if_false]
-        cases g with
-        | zero => left; simp [acceptsTy]
-        | succ g => right; simp [acceptsTy]
-
-
-end Dcg.Proofs.Sem
-
-namespace Dcg.Proofs.Sem
-open Dcg.Sem Dcg.Sem.Pyd Dcg.Model.Constraints Dcg.Model.Translate
-
-section
-variable (st : Style) (re : Regex) (oF oC : Opts)
-
-/-- The three facts that make the two routings of a scalar leaf agree:
-`cvF` = verdict of the bare type (constraints in `Field()`), `ccF` = verdict of the `Field()`
-arguments, `cvC` = verdict of the constrained type. -/
-theorem leaf_facts (h : TableOK st) (hF : oF.fieldConstraints = true)
-    (hC : oC.fieldConstraints = false) (ty : STy) (n : Bool) (b : Bounds) (v : Json)
-    (hok : scalarOK ty b = true) :
-    let cvF := coreVerdict st re ty n (typeCons st oF ty b) v
-    let ccF := checkCons st re (fieldConsOfBounds st ty b) v
-    let cvC := coreVerdict st re ty n (typeCons st oC ty b) v
-    (cvC = .accept → ccF ≠ .reject) ∧ (cvF = .accept → ccF = .accept → cvC ≠ .reject) ∧
-    (cvF = .reject → cvC ≠ .accept) := by
-  obtain ⟨⟨i1, i2, i3, i4, i5⟩, ⟨n1, n2, n3, n4, n5⟩, ⟨s1, s2, s3⟩, ⟨f1, f2, f3, f4, f5⟩,
-    ⟨g1, g2, g3⟩, _, _, _⟩ := h
-  have hint : ty = .integer → ∀ pk d, (d ∈ b.minimum ∨ d ∈ b.maximum ∨ d ∈ b.exclMin ∨ d ∈ b.exclMax ∨
-      d ∈ b.multipleOf) → ∀ r, castValue r .int pk d = d := by
-    intro hty pk d hd r
-    subst hty
-    simp only [scalarOK, Bool.and_eq_true] at hok
-    exact castValue_integral _ _ _ _ (integral_mem _ hok.2 d hd)
-  simp only [coreVerdict, typeCons, hF, hC, if_true, Bool.false_eq_true, if_false, fieldConsOfBounds]
-  cases hnn : (n && v.isNull) with
-  | true =>
-    have : v = .null := by
-      cases v <;> simp [Json.isNull] at hnn
-      rfl
-    subst this
-    simp [checkCons]
-  | false =>
-    simp only [Bool.false_eq_true, if_false]
-    cases ty <;> cases v <;>
-      simp only [scalarOK, Bool.and_eq_true] at hok <;>
-      simp [acceptsScalar, checkCons, famOf, checkNum_empty, checkStr_empty, Tri.ofBool]
-    · -- integer, number value
-      rename_i x
-      have e1 := checkNum_consOfBounds _ _ b x i1 i2 i3 i4 i5 hok.1 (fun pk d hd => hint rfl pk d hd .conType)
-      have e2 := checkNum_consOfBounds _ _ b x f1 f2 f3 f4 f5 hok.1 (fun pk d hd => hint rfl pk d hd .field)
-      simp only [e1, e2]
-      cases x.isInt <;> cases numOK b x <;> simp
-    · -- number
-      rename_i x
-      have e1 := checkNum_consOfBounds (conTypeKw st .num) (castValue .conType .num) b x n1 n2 n3 n4 n5 hok
-        (fun pk d _ => by simp [castValue])
-      have e2 := checkNum_consOfBounds (fieldKw st) (castValue .field .num) b x f1 f2 f3 f4 f5 hok
-        (fun pk d _ => by simp [castValue])
-      simp only [e1, e2]
-      cases numOK b x <;> simp
-    · -- string
-      rename_i s
-      have e1 := checkStr_consOfBounds st re (conTypeKw st .str) (castValue .conType .str) b s s1 s2 s3 hok
-      have e2 := checkStr_consOfBounds st re (fieldKw st) (castValue .field .str) b s g1 g2 g3 hok
-      simp only [e1, e2]
-      cases strOK re b s <;> simp
-
-/-- the routing-independent verdict of a scalar leaf, at any two fuels -/
-theorem leaf_compat (h : TableOK st) (hF : oF.fieldConstraints = true)
-    (hC : oC.fieldConstraints = false) (ty : STy) (n : Bool) (b : Bounds) (v : Json)
-    (hok : scalarOK ty b = true) (X Y : Tri)
-    (hX : X = .laxZone ∨ X = coreVerdict st re ty n (typeCons st oF ty b) v)
-    (hY : Y = .laxZone ∨ Y = coreVerdict st re ty n (typeCons st oC ty b) v) :
-    Compat (Tri.and X (checkCons st re (fieldConsOfBounds st ty b) v)) Y := by
-  obtain ⟨F1, F2, F3⟩ := leaf_facts st re oF oC h hF hC ty n b v hok
-  rcases hY with rfl | rfl
-  · exact compat_lax_right _
-  · rcases hX with rfl | rfl
-    · generalize checkCons st re (fieldConsOfBounds st ty b) v = cc at *
-      generalize coreVerdict st re ty n (typeCons st oC ty b) v = cv at *
-      cases cc <;> cases cv <;> simp_all [Compat, Tri.and]
-    · generalize checkCons st re (fieldConsOfBounds st ty b) v = cc at *
-      generalize coreVerdict st re ty n (typeCons st oC ty b) v = cv at *
-      generalize coreVerdict st re ty n (typeCons st oF ty b) v = cf at *
-      cases cc <;> cases cv <;> cases cf <;> simp_all [Compat, Tri.and]
-
-end
-end Dcg.Proofs.Sem
-
-namespace Dcg.Proofs.Sem
-open Dcg.Sem Dcg.Sem.Pyd Dcg.Model.Constraints Dcg.Model.Translate
-
-def isScalar : Schema → Bool
-  | .scalar _ _ _ => true
-  | _ => false
-
-mutual
-/-- Where the two constraint routings are claimed to agree. Excluded (and refuted on the pinned
-tree): a constrained scalar as `additionalProperties` value (D11) and item-count constraints on an
-array that is itself an array item / union alternative (D31). -/
-def routingSafe : Ctx → Schema → Bool
-  | ctx, .scalar _ _ b => ctx != .plain || !boundsHasConstraint b
-  | ctx, .array items mn mx =>
-    (match ctx with
-      | .item _ => !(mn.isSome || mx.isSome)
-      | _ => true) && routingSafe (.item (mn.isSome || mx.isSome)) items
-  | _, .object props _ _ => propsRoutingSafe props
-  | _, .dict value => routingSafe .plain value
-  | _, .anyOf alts => altsRoutingSafe alts
-  | _, .oneOf alts => altsRoutingSafe alts
-  | _, .allOf _ _ _ _ => false
-  | _, _ => true
-/-- members: a scalar member may carry constraints (they travel in its `Field()`) -/
-def propsRoutingSafe : List (List Char × Schema) → Bool
-  | [] => true
-  | p :: ps => (isScalar p.2 || routingSafe .plain p.2) && propsRoutingSafe ps
-def altsRoutingSafe : List Schema → Bool
-  | [] => true
-  | a :: as => routingSafe (.item false) a && altsRoutingSafe as
-end
-
-def defsRoutingSafe : Defs → Bool
-  | [] => true
-  | p :: ps => routingSafe .top p.2 && defsRoutingSafe ps
-
-theorem propsRoutingSafe_mem {ps : List (List Char × Schema)} (h : propsRoutingSafe ps = true)
-    {p : List Char × Schema} (hp : p ∈ ps) :
-    (isScalar p.2 || routingSafe .plain p.2) = true := by
-  induction ps with
-  | nil => simp at hp
-  | cons q qs ih =>
-    simp only [propsRoutingSafe, Bool.and_eq_true] at h
-    cases List.mem_cons.mp hp with
-    | inl e => subst e; exact h.1
-    | inr e => exact ih h.2 e
-
-theorem altsRoutingSafe_mem {as : List Schema} (h : altsRoutingSafe as = true) {a : Schema}
-    (ha : a ∈ as) : routingSafe (.item false) a = true := by
-  induction as with
-  | nil => simp at ha
-  | cons q qs ih =>
-    simp only [altsRoutingSafe, Bool.and_eq_true] at h
-    cases List.mem_cons.mp ha with
-    | inl e => subst e; exact h.1
-    | inr e => exact ih h.2 e
-
-theorem defsRoutingSafe_lookup {defs : Defs} (h : defsRoutingSafe defs = true) {n : List Char}
-    {s : Schema} (hl : defs.lookup n = some s) : routingSafe .top s = true := by
-  induction defs with
-  | nil => simp [List.lookup] at hl
-  | cons p ps ih =>
-    obtain ⟨k, t⟩ := p
-    simp only [defsRoutingSafe, Bool.and_eq_true] at h
-    simp only [List.lookup] at hl
-    split at hl
-    · simp at hl; subst hl; exact h.1
-    · exact ih h.2 hl
-
-theorem consOfBounds_noCons (route : String → Option String) (cast : String → Dec → Dec)
-    (b : Bounds) (h : boundsHasConstraint b = false) : consOfBounds route cast b = {} := by
-  obtain ⟨mn, mx, xmn, xmx, mul, minl, maxl, pat⟩ := b
-  simp only [boundsHasConstraint, Bool.or_eq_false_iff, Option.isSome_eq_false_iff,
-    Option.isNone_iff_eq_none] at h
-  obtain ⟨⟨⟨⟨⟨⟨⟨rfl, rfl⟩, rfl⟩, rfl⟩, rfl⟩, rfl⟩, rfl⟩, rfl⟩ := h
-  simp [consOfBounds, put]
-
-theorem and_accept (a : Tri) : Tri.and a .accept = a := by cases a <;> rfl
-
-theorem isConst_tr (st : Style) (o : Opts) (s : Schema) :
-    isConst (tr st o .plain s) = (match s with
-      | .const _ => true
-      | _ => false) := by
-  cases s
-  case allOf refs props req xreq =>
-    cases refs with
-    | nil => simp [tr, isConst]
-    | cons r rs => cases rs <;> cases props <;> simp [tr, isConst]
-  case scalar ty n b => cases n <;> simp [tr, isConst, scalarCore]
-  all_goals simp [tr, isConst]
-
-
-end Dcg.Proofs.Sem
-
-namespace Dcg.Proofs.Sem
-open Dcg.Sem Dcg.Sem.Pyd Dcg.Model.Constraints Dcg.Model.Translate
-
-section
-variable (st : Style) (re : Regex) (oF oC : Opts) (defs : Defs)
-
-/-- statement of the routing induction at fuel `g` -/
-def RC (g : Nat) : Prop :=
-  ∀ ctx s v, s.inSubset = true → routingSafe ctx s = true →
-    Compat (acceptsTy st re g (trDefs st oF defs) (tr st oF ctx s) v)
-           (acceptsTy st re g (trDefs st oC defs) (tr st oC ctx s) v)
-
-def RCle (g : Nat) : Prop := ∀ g', g' ≤ g → RC st re oF oC defs g'
-
-/-- a scalar leaf does not look at the definitions environment -/
-theorem acceptsTy_core_indep (o : Opts) (ty : STy) (n : Bool) (b : Bounds) (v : Json) (g : Nat)
-    (D D' : IRDefs) :
-    acceptsTy st re g D (scalarCore st o ty n b) v = acceptsTy st re g D' (scalarCore st o ty n b) v := by
-  cases g with
-  | zero => simp [acceptsTy]
-  | succ g =>
-    cases n with
-    | false => simp [scalarCore, acceptsTy]
-    | true =>
-      simp only [scalarCore, if_true, acceptsTy]
-      cases g <;> simp [acceptsTy]
-
-theorem rc_scalar (h : TableOK st) (hF : oF.fieldConstraints = true)
-    (hC : oC.fieldConstraints = false) (g : Nat) (ctx : Ctx) (ty : STy) (n : Bool) (b : Bounds)
-    (v : Json) (hok : scalarOK ty b = true) (hs : routingSafe ctx (.scalar ty n b) = true) :
-    Compat (acceptsTy st re (g + 1) (trDefs st oF defs) (tr st oF ctx (.scalar ty n b)) v)
-           (acceptsTy st re (g + 1) (trDefs st oC defs) (tr st oC ctx (.scalar ty n b)) v) := by
-  have cF := fun k => acceptsTy_core_cases st oF re ty n b v k (trDefs st oF defs)
-  have cC := fun k => acceptsTy_core_cases st oC re ty n b v k (trDefs st oC defs)
-  have leaf := fun X Y hX hY => leaf_compat st re oF oC h hF hC ty n b v hok X Y hX hY
-  -- without constraints both routings produce the same type
-  have hsame : boundsHasConstraint b = false → scalarCore st oF ty n b = scalarCore st oC ty n b := by
-    intro hb
-    simp only [scalarCore, typeCons, hF, hC, if_true, Bool.false_eq_true, if_false]
-    cases famOf ty <;> simp [consOfBounds_noCons _ _ b hb]
-  cases ctx with
-  | top =>
-    simp only [tr, acceptsTy, rootCons, hF, hC, if_true, Bool.false_eq_true, if_false,
-      checkCons_empty, and_accept]
-    exact leaf _ _ (cF g) (cC g)
-  | plain =>
-    simp only [routingSafe, bne_self_eq_false, Bool.false_or, Bool.not_eq_true'] at hs
-    simp only [tr, hsame hs]
-    exact compat_of_eq (acceptsTy_core_indep st re oC ty n b v (g + 1) _ _)
-  | item phc =>
-    simp only [tr, hF, hC, Bool.or_true, Bool.and_true, Bool.or_false]
-    cases hb : boundsHasConstraint b with
-    | false =>
-      simp only [Bool.false_and, Bool.false_eq_true, if_false, hsame hb]
-      exact compat_of_eq (acceptsTy_core_indep st re oC ty n b v (g + 1) _ _)
-    | true =>
-      cases phc with
-      | true =>
-        simp only [Bool.true_and, if_true, acceptsTy, rootCons, hF, hC, Bool.false_eq_true, if_false,
-          checkCons_empty, and_accept]
-        exact leaf _ _ (cF g) (cC g)
-      | false =>
-        simp only [Bool.true_and, if_true, Bool.false_eq_true, if_false, acceptsTy, rootCons, hF]
-        exact leaf _ _ (cF g) (cC (g + 1))
-
-end
-end Dcg.Proofs.Sem
-
-namespace Dcg.Proofs.Sem
-open Dcg.Sem Dcg.Sem.Pyd Dcg.Model.Constraints Dcg.Model.Translate
-
-section
-variable (st : Style) (re : Regex) (oF oC : Opts) (defs : Defs)
-
-theorem rc_list (g : Nat) (ih : RCle st re oF oC defs g) (ctx : Ctx) (items : Schema) (v : Json)
-    (hsub : items.inSubset = true) (hs : routingSafe ctx items = true) (k : Nat) (hk : k ≤ g + 1) :
-    Compat (acceptsTy st re k (trDefs st oF defs) (.list (tr st oF ctx items)) v)
-           (acceptsTy st re k (trDefs st oC defs) (.list (tr st oC ctx items)) v) := by
-  cases k with
-  | zero => simp [acceptsTy, compat_refl]
-  | succ k =>
-    cases v <;> simp only [acceptsTy, compat_refl]
-    rename_i xs
-    exact compat_all_map xs _ _ (fun x _ => ih k (by omega) ctx items x hsub hs)
-
-theorem rc_array (g : Nat) (ih : RCle st re oF oC defs g) (ctx : Ctx) (items : Schema)
-    (mn mx : Option Nat) (v : Json) (hsub : items.inSubset = true)
-    (hs : routingSafe ctx (.array items mn mx) = true) :
-    Compat (acceptsTy st re (g + 1) (trDefs st oF defs) (tr st oF ctx (.array items mn mx)) v)
-           (acceptsTy st re (g + 1) (trDefs st oC defs) (tr st oC ctx (.array items mn mx)) v) := by
-  simp only [routingSafe, Bool.and_eq_true] at hs
-  obtain ⟨hctx, hitems⟩ := hs
-  have hl := rc_list st re oF oC defs g ih (.item (mn.isSome || mx.isSome)) items v hsub hitems
-  cases ctx with
-  | top =>
-    simp only [tr, acceptsTy]
-    exact compat_and (hl g (by omega)) (compat_refl _)
-  | plain =>
-    simp only [tr]
-    exact hl (g + 1) (by omega)
-  | item phc =>
-    have hc : (mn.isSome || mx.isSome) = false := by simpa using hctx
-    have hl' := hl (g + 1) (by omega)
-    simp only [hc] at hl'
-    simp only [tr, hc, Bool.false_and, Bool.false_eq_true, if_false]
-    exact hl'
-
-theorem fieldCons_nonscalar (o o' : Opts) (s : Schema) (h : isScalar s = false) :
-    fieldCons st o s = fieldCons st o' s := by
-  cases s <;> simp [fieldCons] <;> simp [isScalar] at h
-
-theorem rc_object (h : TableOK st) (hF : oF.fieldConstraints = true)
-    (hC : oC.fieldConstraints = false) (g : Nat) (ih : RCle st re oF oC defs g) (ctx : Ctx)
-    (props : List (List Char × Schema)) (req : List (List Char)) (addl : Addl) (v : Json)
-    (hsub : (Schema.object props req addl).inSubset = true)
-    (hs : routingSafe ctx (.object props req addl) = true) :
-    Compat (acceptsTy st re (g + 1) (trDefs st oF defs) (tr st oF ctx (.object props req addl)) v)
-           (acceptsTy st re (g + 1) (trDefs st oC defs) (tr st oC ctx (.object props req addl)) v) := by
-  simp only [Schema.inSubset, Bool.and_eq_true] at hsub
-  obtain ⟨⟨hps, _⟩, _⟩ := hsub
-  simp only [routingSafe] at hs
-  cases v <;> simp only [tr, acceptsTy, compat_refl]
-  rename_i kvs
-  have hnames : ∀ o, (trProps st o req props).map (·.1) = props.map (·.1) := by
-    intro o; rw [trProps_eq_map, List.map_map]; rfl
-  refine compat_and ?_ ?_
-  · rw [trProps_eq_map, trProps_eq_map, List.map_map, List.map_map]
-    refine compat_all_map props _ _ ?_
-    intro p hp
-    obtain ⟨nm, s⟩ := p
-    have hsafe := propsRoutingSafe_mem hs hp
-    have hsub' : s.inSubset = true := propsInSubset_mem (p := (nm, s)) hps hp
-    simp only [Function.comp]
-    cases kvs.lookup nm with
-    | none =>
-      simp only
-      cases (req.contains nm && !constDefaulted st s) <;> simp [compat_refl]
-      split <;> split <;> simp [Compat]
-    | some x =>
-      simp only
-      have hic : isConst (tr st oF .plain s) = isConst (tr st oC .plain s) := by
-        rw [isConst_tr, isConst_tr]
-      rw [hic]
-      cases (x.isNull && !(req.contains nm && !constDefaulted st s) && !isConst (tr st oC .plain s)) with
-      | true => simp [compat_refl]
-      | false =>
-        simp only [Bool.false_eq_true, if_false]
-        cases s with
-        | scalar ty n b =>
-          simp only [Schema.inSubset] at hsub'
-          simp only [tr, fieldCons, hF, hC, if_true, Bool.false_eq_true, if_false, checkCons_empty,
-            and_accept]
-          exact leaf_compat st re oF oC h hF hC ty n b x hsub' _ _
-            (acceptsTy_core_cases st oF re ty n b x g _) (acceptsTy_core_cases st oC re ty n b x g _)
-        | _ =>
-          simp only [isScalar, Bool.false_or] at hsafe
-          rw [fieldCons_nonscalar st oF oC _ (by simp [isScalar])]
-          exact compat_and (ih g (Nat.le_refl _) .plain _ x hsub' hsafe) (compat_refl _)
-  · rw [hnames oF, hnames oC]
-    exact compat_refl _
-
-theorem rc_all (h : TableOK st) (hF : oF.fieldConstraints = true) (hC : oC.fieldConstraints = false)
-    (hd : defsInSubset defs = true) (hds : defsRoutingSafe defs = true) :
-    ∀ g, RCle st re oF oC defs g := by
-  intro g
-  induction g with
-  | zero =>
-    intro g' hg' ctx s v _ _
-    have : g' = 0 := by omega
-    subst this
-    simp [acceptsTy, compat_refl]
-  | succ g ih =>
-    intro g' hg'
-    by_cases hle : g' ≤ g
-    · exact ih g' hle
-    · have : g' = g + 1 := by omega
-      subst this
-      intro ctx s v hsub hs
-      cases s with
-      | any => simp [tr, acceptsTy, compat_refl]
-      | null => simp [tr, acceptsTy, compat_refl]
-      | scalar ty n b =>
-        simp only [Schema.inSubset] at hsub
-        exact rc_scalar st re oF oC defs h hF hC g ctx ty n b v hsub hs
-      | enum vals => simp [tr, acceptsTy, compat_refl]
-      | const a => simp [tr, acceptsTy, compat_refl]
-      | array items mn mx =>
-        simp only [Schema.inSubset] at hsub
-        exact rc_array st re oF oC defs g ih ctx items mn mx v hsub hs
-      | object props req addl => exact rc_object st re oF oC defs h hF hC g ih ctx props req addl v hsub hs
-      | dict value =>
-        simp only [Schema.inSubset] at hsub
-        simp only [routingSafe] at hs
-        cases v <;> simp only [tr, acceptsTy, compat_refl]
-        rename_i kvs
-        exact compat_all_map kvs _ _ (fun kv _ => ih g (Nat.le_refl _) .plain value kv.2 hsub hs)
-      | ref n =>
-        simp only [tr, acceptsTy, lookup_trDefs]
-        cases hl : defs.lookup n with
-        | none => simp [compat_refl]
-        | some t =>
-          simp only [Option.map]
-          exact ih g (Nat.le_refl _) .top t v (defs_lookup_inSubset hd hl) (defsRoutingSafe_lookup hds hl)
-      | anyOf alts =>
-        simp only [Schema.inSubset] at hsub
-        simp only [routingSafe] at hs
-        simp only [tr, acceptsTy, trAlts_eq_map, List.map_map]
-        exact compat_any_map alts _ _ (fun a ha =>
-          ih g (Nat.le_refl _) (.item false) a v (allInSubset_mem hsub ha) (altsRoutingSafe_mem hs ha))
-      | oneOf alts =>
-        simp only [Schema.inSubset] at hsub
-        simp only [routingSafe] at hs
-        simp only [tr, acceptsTy, trAlts_eq_map, List.map_map]
-        exact compat_any_map alts _ _ (fun a ha =>
-          ih g (Nat.le_refl _) (.item false) a v (allInSubset_mem hsub ha) (altsRoutingSafe_mem hs ha))
-      | allOf refs props req xreq => simp [routingSafe] at hs
-
-
-end
-end Dcg.Proofs.Sem
-
-namespace Dcg.Proofs.Sem
-open Dcg.Sem Dcg.Sem.Pyd Dcg.Model.Constraints Dcg.Model.Translate
-
-/-! ### C04: an accepted value is valid (up to `null` for a non-required member) -/
-
-theorem propsOneOfFree_mem {ps : List (List Char × Schema)} (h : Schema.propsOneOfFree ps = true)
-    {p : List Char × Schema} (hp : p ∈ ps) : p.2.oneOfFree = true := by
-  induction ps with
-  | nil => simp at hp
-  | cons q qs ih =>
-    simp only [Schema.propsOneOfFree, Bool.and_eq_true] at h
-    cases List.mem_cons.mp hp with
-    | inl e => subst e; exact h.1
-    | inr e => exact ih h.2 e
-
-theorem allOneOfFree_mem {ss : List Schema} (h : Schema.allOneOfFree ss = true)
-    {s : Schema} (hs : s ∈ ss) : s.oneOfFree = true := by
-  induction ss with
-  | nil => simp at hs
-  | cons q qs ih =>
-    simp only [Schema.allOneOfFree, Bool.and_eq_true] at h
-    cases List.mem_cons.mp hs with
-    | inl e => subst e; exact h.1
-    | inr e => exact ih h.2 e
-
-/-- more fuel keeps a value valid (no `oneOf`: there more fuel could make a second alternative valid) -/
-theorem validJN_mono (re : Regex) (defs : Defs) (hd : Schema.propsOneOfFree defs = true) :
-    ∀ f s v, s.oneOfFree = true → validJN re f defs s v = true → validJN re (f + 1) defs s v = true := by
-  intro f
-  induction f with
-  | zero => intro s v _ h; simp [validJN] at h
-  | succ f ih =>
-    intro s v hs h
-    cases s with
-    | any => simp [validJN]
-    | null => simpa [validJN] using h
-    | scalar ty n b => simpa [validJN] using h
-    | enum vals => simpa [validJN] using h
-    | const a => simpa [validJN] using h
-    | array items mn mx =>
-      simp only [Schema.oneOfFree] at hs
-      cases v <;> simp only [validJN, Bool.false_eq_true] at h
-      rename_i xs
-      simp only [Bool.and_eq_true, List.all_eq_true] at h
-      simp only [validJN, Bool.and_eq_true, List.all_eq_true]
-      exact ⟨h.1, fun x hx => ih items x hs (h.2 x hx)⟩
-    | object props req addl =>
-      simp only [Schema.oneOfFree] at hs
-      cases v <;> simp only [validJN, Bool.false_eq_true] at h
-      rename_i kvs
-      simp only [Bool.and_eq_true, List.all_eq_true] at h
-      obtain ⟨⟨h1, h2⟩, h3⟩ := h
-      simp only [validJN, Bool.and_eq_true, List.all_eq_true]
-      refine ⟨⟨h1, ?_⟩, h3⟩
-      intro p hp
-      have := h2 p hp
-      cases hl : kvs.lookup p.1 with
-      | none => simp
-      | some x =>
-        simp only [hl, Bool.or_eq_true] at this
-        simp only [Bool.or_eq_true]
-        cases this with
-        | inl e => exact Or.inl e
-        | inr e => exact Or.inr (ih p.2 x (propsOneOfFree_mem hs hp) e)
-    | dict value =>
-      simp only [Schema.oneOfFree] at hs
-      cases v <;> simp only [validJN, Bool.false_eq_true] at h
-      rename_i kvs
-      simp only [List.all_eq_true] at h
-      simp only [validJN, List.all_eq_true]
-      exact fun kv hkv => ih value kv.2 hs (h kv hkv)
-    | ref n =>
-      simp only [validJN] at h ⊢
-      cases hl : defs.lookup n with
-      | none => simp [hl] at h
-      | some t =>
-        simp only [hl] at h ⊢
-        exact ih t v (propsOneOfFree_mem (p := (n, t)) hd (lookup_mem defs n t hl)) h
-    | anyOf alts =>
-      simp only [Schema.oneOfFree] at hs
-      simp only [validJN, List.any_eq_true] at h ⊢
-      obtain ⟨a, ha, hva⟩ := h
-      exact ⟨a, ha, ih a v (allOneOfFree_mem hs ha) hva⟩
-    | oneOf alts => simp [Schema.oneOfFree] at hs
-    | allOf refs props req xreq => simp [Schema.oneOfFree] at hs
-
-theorem validJN_mono_le (re : Regex) (defs : Defs) (hd : Schema.propsOneOfFree defs = true)
-    (s : Schema) (v : Json) (hs : s.oneOfFree = true) (f f' : Nat) (hle : f ≤ f')
-    (h : validJN re f defs s v = true) : validJN re f' defs s v = true := by
-  induction hle with
-  | refl => exact h
-  | step _ ih => exact validJN_mono re defs hd _ s v hs ih
-
-
-end Dcg.Proofs.Sem
-
-namespace Dcg.Proofs.Sem
-open Dcg.Sem Dcg.Sem.Pyd Dcg.Model.Constraints Dcg.Model.Translate
-
-mutual
-/-- Where the generated model is claimed to reject whatever the schema rejects (standalone
-places: document/definition, array item, union alternative, `additionalProperties` value).
-Excluded — each refuted on the pinned tree: a constrained scalar in a plain standalone place under
-`field_constraints` (D11), item-count constraints on an array that is not a member / definition
-without `field_constraints` (D31), `oneOf` (a Union accepts when two alternatives match), and in
-`propsStrict` a required `const` member in v1-style output (D30). -/
-def strictSafe (st : Style) (fc : Bool) : Ctx → Schema → Bool
-  | ctx, .scalar _ _ b => !(ctx == .plain && fc) || !boundsHasConstraint b
-  | ctx, .array items mn mx =>
-    (match ctx with
-      | .top => true
-      | .plain => !(mn.isSome || mx.isSome)
-      | .item _ => !(mn.isSome || mx.isSome) || fc) &&
-    strictSafe st fc (.item (mn.isSome || mx.isSome)) items
-  | _, .object props req _ => propsStrict st fc req props
-  | _, .dict value => strictSafe st fc .plain value
-  | _, .anyOf alts => altsStrict st fc alts
-  | _, .oneOf _ => false
-  | _, _ => true
-/-- a member: its scalar / item-count constraints travel in the type or in `Field()` -/
-def memberStrict (st : Style) (fc : Bool) : Schema → Bool
-  | .scalar _ _ _ => true
-  | .array items mn mx => strictSafe st fc (.item (mn.isSome || mx.isSome)) items
-  | .object props req _ => propsStrict st fc req props
-  | .dict value => strictSafe st fc .plain value
-  | .anyOf alts => altsStrict st fc alts
-  | .oneOf _ => false
-  | _ => true
-def propsStrict (st : Style) (fc : Bool) (req : List (List Char)) : List (List Char × Schema) → Bool
-  | [] => true
-  | p :: ps =>
-    !(constDefaulted st p.2 && req.contains p.1) && memberStrict st fc p.2 && propsStrict st fc req ps
-def altsStrict (st : Style) (fc : Bool) : List Schema → Bool
-  | [] => true
-  | a :: as => strictSafe st fc (.item false) a && altsStrict st fc as
-end
-
-def defsStrict (st : Style) (fc : Bool) : Defs → Bool
-  | [] => true
-  | p :: ps => strictSafe st fc .top p.2 && defsStrict st fc ps
-
-theorem propsStrict_mem {st : Style} {fc : Bool} {req : List (List Char)}
-    {ps : List (List Char × Schema)} (h : propsStrict st fc req ps = true)
-    {p : List Char × Schema} (hp : p ∈ ps) :
-    (constDefaulted st p.2 && req.contains p.1) = false ∧ memberStrict st fc p.2 = true := by
-  induction ps with
-  | nil => simp at hp
-  | cons q qs ih =>
-    simp only [propsStrict, Bool.and_eq_true, Bool.not_eq_true'] at h
-    cases List.mem_cons.mp hp with
-    | inl e => subst e; exact ⟨h.1.1, h.1.2⟩
-    | inr e => exact ih h.2 e
-
-theorem altsStrict_mem {st : Style} {fc : Bool} {as : List Schema} (h : altsStrict st fc as = true)
-    {a : Schema} (ha : a ∈ as) : strictSafe st fc (.item false) a = true := by
-  induction as with
-  | nil => simp at ha
-  | cons q qs ih =>
-    simp only [altsStrict, Bool.and_eq_true] at h
-    cases List.mem_cons.mp ha with
-    | inl e => subst e; exact h.1
-    | inr e => exact ih h.2 e
-
-theorem defsStrict_lookup {st : Style} {fc : Bool} {defs : Defs} (h : defsStrict st fc defs = true)
-    {n : List Char} {s : Schema} (hl : defs.lookup n = some s) : strictSafe st fc .top s = true := by
-  induction defs with
-  | nil => simp [List.lookup] at hl
-  | cons p ps ih =>
-    obtain ⟨k, t⟩ := p
-    simp only [defsStrict, Bool.and_eq_true] at h
-    simp only [List.lookup] at hl
-    split at hl
-    · simp at hl; subst hl; exact h.1
-    · exact ih h.2 hl
-
-theorem and_eq_accept {a b : Tri} : Tri.and a b = .accept ↔ a = .accept ∧ b = .accept := by
-  cases a <;> cases b <;> simp [Tri.and]
-
-theorem all_eq_accept {xs : List Tri} : Tri.all xs = .accept ↔ ∀ x ∈ xs, x = .accept := by
-  induction xs with
-  | nil => simp [Tri.all]
-  | cons x xs ih =>
-    have : Tri.all (x :: xs) = Tri.and x (Tri.all xs) := rfl
-    rw [this, and_eq_accept, ih]
-    simp
-
-theorem or_eq_accept {a b : Tri} : Tri.or a b = .accept ↔ a = .accept ∨ b = .accept := by
-  cases a <;> cases b <;> simp [Tri.or]
-
-theorem any_eq_accept {xs : List Tri} : Tri.any xs = .accept ↔ ∃ x ∈ xs, x = .accept := by
-  induction xs with
-  | nil => simp [Tri.any]
-  | cons x xs ih =>
-    have : Tri.any (x :: xs) = Tri.or x (Tri.any xs) := rfl
-    rw [this, or_eq_accept, ih]
-    constructor
-    · rintro (h | ⟨y, hy, rfl⟩)
-      · exact ⟨x, by simp, h⟩
-      · exact ⟨_, by simp [hy], rfl⟩
-    · rintro ⟨y, hy, rfl⟩
-      cases List.mem_cons.mp hy with
-      | inl e => exact Or.inl e.symm
-      | inr e => exact Or.inr ⟨_, e, rfl⟩
-
-theorem ofBool_eq_accept {b : Bool} : Tri.ofBool b = .accept ↔ b = true := by
-  cases b <;> simp [Tri.ofBool]
-
-theorem numOK_noCons (b : Bounds) (h : boundsHasConstraint b = false) (x : Dec) : numOK b x = true := by
-  obtain ⟨mn, mx, xmn, xmx, mul, minl, maxl, pat⟩ := b
-  simp only [boundsHasConstraint, Bool.or_eq_false_iff, Option.isSome_eq_false_iff,
-    Option.isNone_iff_eq_none] at h
-  obtain ⟨⟨⟨⟨⟨⟨⟨rfl, rfl⟩, rfl⟩, rfl⟩, rfl⟩, rfl⟩, rfl⟩, rfl⟩ := h
-  simp [numOK]
-
-theorem strOK_noCons (re : Regex) (b : Bounds) (h : boundsHasConstraint b = false) (s : List Char) :
-    strOK re b s = true := by
-  obtain ⟨mn, mx, xmn, xmx, mul, minl, maxl, pat⟩ := b
-  simp only [boundsHasConstraint, Bool.or_eq_false_iff, Option.isSome_eq_false_iff,
-    Option.isNone_iff_eq_none] at h
-  obtain ⟨⟨⟨⟨⟨⟨⟨rfl, rfl⟩, rfl⟩, rfl⟩, rfl⟩, rfl⟩, rfl⟩, rfl⟩ := h
-  simp [strOK]
-
-/-- a scalar leaf that says `accept` has a value the schema admits — provided its constraints
-are somewhere: in the type (no `field_constraints`), in the accompanying `Field()`, or absent -/
-theorem scalar_accept_valid (st : Style) (re : Regex) (o : Opts) (h : TableOK st) (ty : STy)
-    (n : Bool) (b : Bounds) (v : Json) (hok : scalarOK ty b = true)
-    (hacc : coreVerdict st re ty n (typeCons st o ty b) v = .accept)
-    (hcons : o.fieldConstraints = false ∨ checkCons st re (fieldConsOfBounds st ty b) v = .accept ∨
-      boundsHasConstraint b = false) :
-    ((n && v.isNull) || validScalar re ty b v) = true := by
-  obtain ⟨⟨i1, i2, i3, i4, i5⟩, ⟨n1, n2, n3, n4, n5⟩, ⟨s1, s2, s3⟩, ⟨f1, f2, f3, f4, f5⟩,
-    ⟨g1, g2, g3⟩, _, _, _⟩ := h
-  have hint : ty = .integer → ∀ pk d, (d ∈ b.minimum ∨ d ∈ b.maximum ∨ d ∈ b.exclMin ∨ d ∈ b.exclMax ∨
-      d ∈ b.multipleOf) → ∀ r, castValue r .int pk d = d := by
-    intro hty pk d hd r
-    subst hty
-    simp only [scalarOK, Bool.and_eq_true] at hok
-    exact castValue_integral _ _ _ _ (integral_mem _ hok.2 d hd)
-  simp only [coreVerdict] at hacc
-  cases hnn : (n && v.isNull) with
-  | true => simp
-  | false =>
-    simp only [hnn, Bool.false_eq_true, if_false] at hacc
-    simp only [Bool.false_or]
-    unfold typeCons at hacc
-    unfold fieldConsOfBounds at hcons
-    cases ty <;> cases v <;> simp [acceptsScalar] at hacc <;>
-      simp only [scalarOK, Bool.and_eq_true] at hok <;>
-      simp only [validScalar, famOf, Option.getD, checkCons] at hcons ⊢
-    · -- integer
-      rename_i x
-      have e1 := checkNum_consOfBounds _ _ b x i1 i2 i3 i4 i5 hok.1 (fun pk d hd => hint rfl pk d hd .conType)
-      have e2 := checkNum_consOfBounds _ _ b x f1 f2 f3 f4 f5 hok.1 (fun pk d hd => hint rfl pk d hd .field)
-      rcases hcons with hc | hc | hc
-      · simp [hc, famOf, e1, Tri.ofBool] at hacc
-        cases hi : x.isInt <;> simp_all
-      · cases hfc : o.fieldConstraints <;> simp [hfc, famOf, e1, checkNum_empty, Tri.ofBool] at hacc <;>
-          simp [e2, Tri.ofBool] at hc <;> cases hi : x.isInt <;> simp_all
-      · cases hfc : o.fieldConstraints <;> simp [hfc, famOf, e1, checkNum_empty, Tri.ofBool] at hacc <;>
-          cases hi : x.isInt <;> simp_all [numOK_noCons b hc x]
-    · -- number
-      rename_i x
-      have e1 := checkNum_consOfBounds (conTypeKw st .num) (castValue .conType .num) b x n1 n2 n3 n4 n5 hok
-        (fun pk d _ => by simp [castValue])
-      have e2 := checkNum_consOfBounds (fieldKw st) (castValue .field .num) b x f1 f2 f3 f4 f5 hok
-        (fun pk d _ => by simp [castValue])
-      rcases hcons with hc | hc | hc
-      · simp [hc, famOf, e1, Tri.ofBool] at hacc
-        exact hacc
-      · simp [e2, Tri.ofBool] at hc
-        exact hc
-      · exact numOK_noCons b hc x
-    · -- string
-      rename_i s
-      have e1 := checkStr_consOfBounds st re (conTypeKw st .str) (castValue .conType .str) b s s1 s2 s3 hok
-      have e2 := checkStr_consOfBounds st re (fieldKw st) (castValue .field .str) b s g1 g2 g3 hok
-      rcases hcons with hc | hc | hc
-      · simp [hc, famOf, e1, Tri.ofBool] at hacc
-        exact hacc
-      · simp [e2, Tri.ofBool] at hc
-        exact hc
-      · exact strOK_noCons re b hc s
-
-
-end Dcg.Proofs.Sem
-
-namespace Dcg.Proofs.Sem
-open Dcg.Sem Dcg.Sem.Pyd Dcg.Model.Constraints Dcg.Model.Translate
-
-section
-variable (st : Style) (o : Opts) (re : Regex) (defs : Defs)
-
-/-- statement of the soundness induction at fuel `g` -/
-def SD (g : Nat) : Prop :=
-  ∀ ctx s v, s.inSubset = true → s.oneOfFree = true → strictSafe st o.fieldConstraints ctx s = true →
-    acceptsTy st re g (trDefs st o defs) (tr st o ctx s) v = .accept → validJN re g defs s v = true
-
-def SDle (g : Nat) : Prop := ∀ g', g' ≤ g → SD st o re defs g'
-
-theorem core_accept (ty : STy) (n : Bool) (b : Bounds) (v : Json) (g : Nat) (D : IRDefs)
-    (h : acceptsTy st re g D (scalarCore st o ty n b) v = .accept) :
-    coreVerdict st re ty n (typeCons st o ty b) v = .accept := by
-  rcases acceptsTy_core_cases st o re ty n b v g D with e | e
-  · rw [e] at h; cases h
-  · rw [e] at h; exact h
-
-theorem sd_scalar (h : TableOK st) (g : Nat) (ctx : Ctx) (ty : STy) (n : Bool) (b : Bounds)
-    (v : Json) (hok : scalarOK ty b = true)
-    (hs : strictSafe st o.fieldConstraints ctx (.scalar ty n b) = true)
-    (hacc : acceptsTy st re (g + 1) (trDefs st o defs) (tr st o ctx (.scalar ty n b)) v = .accept) :
-    validJN re (g + 1) defs (.scalar ty n b) v = true := by
-  simp only [validJN]
-  have key := scalar_accept_valid st re o h ty n b v hok
-  cases ctx with
-  | top =>
-    simp only [tr, acceptsTy, and_eq_accept] at hacc
-    refine key (core_accept st o re ty n b v g _ hacc.1) ?_
-    cases hfc : o.fieldConstraints with
-    | false => exact Or.inl rfl
-    | true => simp only [rootCons, hfc, if_true] at hacc; exact Or.inr (Or.inl hacc.2)
-  | plain =>
-    simp only [tr] at hacc
-    refine key (core_accept st o re ty n b v (g + 1) _ hacc) ?_
-    cases hfc : o.fieldConstraints with
-    | false => exact Or.inl rfl
-    | true =>
-      simp only [strictSafe, hfc, beq_self_eq_true, Bool.and_true, Bool.not_true, Bool.false_or,
-        Bool.not_eq_true'] at hs
-      exact Or.inr (Or.inr hs)
-  | item phc =>
-    simp only [tr] at hacc
-    cases hfc : o.fieldConstraints with
-    | false =>
-      split at hacc
-      · simp only [acceptsTy, and_eq_accept] at hacc
-        exact key (core_accept st o re ty n b v g _ hacc.1) (Or.inl hfc)
-      · exact key (core_accept st o re ty n b v (g + 1) _ hacc) (Or.inl hfc)
-    | true =>
-      simp only [hfc, Bool.or_true, Bool.and_true] at hacc
-      cases hb : boundsHasConstraint b with
-      | false =>
-        simp only [hb, Bool.false_eq_true, if_false] at hacc
-        exact key (core_accept st o re ty n b v (g + 1) _ hacc) (Or.inr (Or.inr hb))
-      | true =>
-        simp only [hb, if_true, acceptsTy, and_eq_accept, rootCons, hfc] at hacc
-        exact key (core_accept st o re ty n b v g _ hacc.1) (Or.inr (Or.inl hacc.2))
-
-/-- a list type that accepts an array: every item is valid (at the fuel the items were checked with) -/
-theorem sd_list (hdo : Schema.propsOneOfFree defs = true) (g : Nat) (ih : SDle st o re defs g)
-    (ctx : Ctx) (items : Schema) (v : Json) (hsub : items.inSubset = true)
-    (hof : items.oneOfFree = true) (hs : strictSafe st o.fieldConstraints ctx items = true)
-    (k : Nat) (hk : k ≤ g + 1)
-    (hacc : acceptsTy st re k (trDefs st o defs) (.list (tr st o ctx items)) v = .accept) :
-    ∃ xs, v = .arr xs ∧ ∀ x ∈ xs, validJN re g defs items x = true := by
-  cases k with
-  | zero => simp [acceptsTy] at hacc
-  | succ k =>
-    cases v <;> simp only [acceptsTy, reduceCtorEq] at hacc
-    rename_i xs
-    refine ⟨xs, rfl, ?_⟩
-    intro x hx
-    rw [all_eq_accept] at hacc
-    have hxa := hacc _ (List.mem_map.mpr ⟨x, hx, rfl⟩)
-    have := ih k (by omega) ctx items x hsub hof hs hxa
-    exact validJN_mono_le re defs hdo items x hof k g (by omega) this
-
-
-end
-end Dcg.Proofs.Sem
-
-namespace Dcg.Proofs.Sem
-open Dcg.Sem Dcg.Sem.Pyd Dcg.Model.Constraints Dcg.Model.Translate
-
-section
-variable (st : Style) (o : Opts) (re : Regex) (defs : Defs)
-
-theorem checkCons_items_accept (h : TableOK st) (mn mx : Option Nat) (xs : List Json)
-    (hc : checkCons st re (consOfItems (fieldKw st) mn mx) (.arr xs) = .accept) :
-    lenOK mn mx xs.length = true := by
-  obtain ⟨_, _, _, _, _, ⟨a1, a2⟩, _, _⟩ := h
-  simpa [checkCons, checkLen_consOfItems st _ mn mx _ a1 a2, Tri.ofBool] using hc
-
-theorem lenOK_none (n : Nat) : lenOK none none n = true := by simp [lenOK]
-
-theorem sd_array (h : TableOK st) (hdo : Schema.propsOneOfFree defs = true) (g : Nat)
-    (ih : SDle st o re defs g) (ctx : Ctx) (items : Schema) (mn mx : Option Nat) (v : Json)
-    (hsub : items.inSubset = true) (hof : items.oneOfFree = true)
-    (hs : strictSafe st o.fieldConstraints ctx (.array items mn mx) = true)
-    (hacc : acceptsTy st re (g + 1) (trDefs st o defs) (tr st o ctx (.array items mn mx)) v = .accept) :
-    validJN re (g + 1) defs (.array items mn mx) v = true := by
-  simp only [strictSafe, Bool.and_eq_true] at hs
-  obtain ⟨hctx, hitems⟩ := hs
-  have hl := sd_list st o re defs hdo g ih (.item (mn.isSome || mx.isSome)) items v hsub hof hitems
-  have fin : ∀ xs, v = .arr xs → (∀ x ∈ xs, validJN re g defs items x = true) →
-      lenOK mn mx xs.length = true → validJN re (g + 1) defs (.array items mn mx) v = true := by
-    intro xs hv hall hlen
-    subst hv
-    simp only [validJN, Bool.and_eq_true, List.all_eq_true]
-    exact ⟨hlen, hall⟩
-  have noc : (mn.isSome || mx.isSome) = false → ∀ n, lenOK mn mx n = true := by
-    intro hc n
-    cases mn <;> cases mx <;> simp at hc
-    exact lenOK_none n
-  cases ctx with
-  | top =>
-    simp only [tr, acceptsTy, and_eq_accept] at hacc
-    obtain ⟨xs, hv, hall⟩ := hl g (by omega) hacc.1
-    subst hv
-    exact fin xs rfl hall (checkCons_items_accept st re h mn mx xs hacc.2)
-  | plain =>
-    simp only [tr] at hacc
-    obtain ⟨xs, hv, hall⟩ := hl (g + 1) (by omega) hacc
-    have hc : (mn.isSome || mx.isSome) = false := by simpa using hctx
-    exact fin xs hv hall (noc hc _)
-  | item phc =>
-    simp only [tr] at hacc
-    cases hc : (mn.isSome || mx.isSome) with
-    | false =>
-      simp only [hc, Bool.false_and, Bool.false_eq_true, if_false] at hacc
-      rw [hc] at hl
-      obtain ⟨xs, hv, hall⟩ := hl (g + 1) (by omega) hacc
-      exact fin xs hv hall (noc hc _)
-    | true =>
-      simp only [hc, Bool.not_true, Bool.false_or] at hctx
-      simp only [hc, hctx, Bool.or_true, Bool.and_true, if_true, acceptsTy, and_eq_accept, rootCons] at hacc
-      rw [hc] at hl
-      obtain ⟨xs, hv, hall⟩ := hl g (by omega) hacc.1
-      subst hv
-      exact fin xs rfl hall (checkCons_items_accept st re h mn mx xs hacc.2)
-
-/-- a member: its type verdict together with its `Field()` arguments -/
-theorem sd_member (h : TableOK st) (hdo : Schema.propsOneOfFree defs = true) (g : Nat)
-    (ih : SDle st o re defs g) (s : Schema) (x : Json) (hsub : s.inSubset = true)
-    (hof : s.oneOfFree = true) (hs : memberStrict st o.fieldConstraints s = true)
-    (hacc : Tri.and (acceptsTy st re g (trDefs st o defs) (tr st o .plain s) x)
-      (checkCons st re (fieldCons st o s) x) = .accept) :
-    validJN re g defs s x = true := by
-  rw [and_eq_accept] at hacc
-  obtain ⟨ht, hc⟩ := hacc
-  cases g with
-  | zero => simp [acceptsTy] at ht
-  | succ g =>
-    have ihg : SDle st o re defs g := fun g' hg' => ih g' (by omega)
-    cases s with
-    | scalar ty n b =>
-      simp only [Schema.inSubset] at hsub
-      simp only [tr] at ht
-      simp only [validJN]
-      refine scalar_accept_valid st re o h ty n b x hsub (core_accept st o re ty n b x (g + 1) _ ht) ?_
-      cases hfc : o.fieldConstraints with
-      | false => exact Or.inl rfl
-      | true => simp only [fieldCons, hfc, if_true] at hc; exact Or.inr (Or.inl hc)
-    | array items mn mx =>
-      simp only [Schema.inSubset] at hsub
-      simp only [Schema.oneOfFree] at hof
-      simp only [memberStrict] at hs
-      simp only [tr] at ht
-      obtain ⟨xs, hv, hall⟩ := sd_list st o re defs hdo g ihg (.item (mn.isSome || mx.isSome)) items x hsub hof hs
-        (g + 1) (by omega) ht
-      subst hv
-      simp only [fieldCons] at hc
-      simp only [validJN, Bool.and_eq_true, List.all_eq_true]
-      exact ⟨checkCons_items_accept st re h mn mx xs hc, hall⟩
-    | any => exact ih (g + 1) (Nat.le_refl _) .plain _ x hsub hof (by simp [strictSafe]) ht
-    | null => exact ih (g + 1) (Nat.le_refl _) .plain _ x hsub hof (by simp [strictSafe]) ht
-    | enum vals => exact ih (g + 1) (Nat.le_refl _) .plain _ x hsub hof (by simp [strictSafe]) ht
-    | const a => exact ih (g + 1) (Nat.le_refl _) .plain _ x hsub hof (by simp [strictSafe]) ht
-    | ref n => exact ih (g + 1) (Nat.le_refl _) .plain _ x hsub hof (by simp [strictSafe]) ht
-    | object props req addl =>
-      exact ih (g + 1) (Nat.le_refl _) .plain _ x hsub hof (by simpa [strictSafe, memberStrict] using hs) ht
-    | dict value =>
-      exact ih (g + 1) (Nat.le_refl _) .plain _ x hsub hof (by simpa [strictSafe, memberStrict] using hs) ht
-    | anyOf alts =>
-      exact ih (g + 1) (Nat.le_refl _) .plain _ x hsub hof (by simpa [strictSafe, memberStrict] using hs) ht
-    | oneOf alts => simp [Schema.oneOfFree] at hof
-    | allOf refs props req xreq => simp [Schema.oneOfFree] at hof
-
-
-end
-end Dcg.Proofs.Sem
-
-namespace Dcg.Proofs.Sem
-open Dcg.Sem Dcg.Sem.Pyd Dcg.Model.Constraints Dcg.Model.Translate
-
-section
-variable (st : Style) (o : Opts) (re : Regex) (defs : Defs)
-
-theorem sd_object (h : TableOK st) (hdo : Schema.propsOneOfFree defs = true) (g : Nat)
-    (ih : SDle st o re defs g) (ctx : Ctx) (props : List (List Char × Schema))
-    (req : List (List Char)) (addl : Addl) (v : Json)
-    (hsub : (Schema.object props req addl).inSubset = true)
-    (hof : (Schema.object props req addl).oneOfFree = true)
-    (hs : strictSafe st o.fieldConstraints ctx (.object props req addl) = true)
-    (hacc : acceptsTy st re (g + 1) (trDefs st o defs) (tr st o ctx (.object props req addl)) v = .accept) :
-    validJN re (g + 1) defs (.object props req addl) v = true := by
-  simp only [Schema.inSubset, Bool.and_eq_true, List.all_eq_true] at hsub
-  obtain ⟨⟨hps, hnd⟩, hreqdecl⟩ := hsub
-  simp only [Schema.oneOfFree] at hof
-  simp only [strictSafe] at hs
-  cases v <;> simp only [tr, acceptsTy, reduceCtorEq] at hacc
-  rename_i kvs
-  rw [and_eq_accept, all_eq_accept, trProps_eq_map] at hacc
-  obtain ⟨hfields, hextra⟩ := hacc
-  -- the verdict of one declared member
-  have hfield : ∀ p ∈ props,
-      (match kvs.lookup p.1 with
-        | none => if (req.contains p.1 && !constDefaulted st p.2) = true then
-            (if isOpt (tr st o .plain p.2) = true then Tri.laxZone else Tri.reject) else Tri.accept
-        | some x => if (x.isNull && !(req.contains p.1 && !constDefaulted st p.2) &&
-              !isConst (tr st o .plain p.2)) = true then Tri.accept
-            else Tri.and (acceptsTy st re g (trDefs st o defs) (tr st o .plain p.2) x)
-              (checkCons st re (fieldCons st o p.2) x)) = Tri.accept := by
-    intro p hp
-    have := hfields _ (List.mem_map.mpr ⟨(p.1, req.contains p.1 && !constDefaulted st p.2,
-      fieldCons st o p.2, tr st o .plain p.2), List.mem_map.mpr ⟨p, hp, rfl⟩, rfl⟩)
-    exact this
-  simp only [validJN, Bool.and_eq_true, List.all_eq_true]
-  refine ⟨⟨?_, ?_⟩, ?_⟩
-  · -- required members are present
-    intro k hk
-    have hdecl : (props.map (·.1)).contains k = true := hreqdecl k hk
-    simp only [List.contains_iff_mem, List.mem_map] at hdecl
-    obtain ⟨p, hp, rfl⟩ := hdecl
-    have hstrict := (propsStrict_mem hs hp).1
-    have hf := hfield p hp
-    have hrk : req.contains p.1 = true := by simpa using hk
-    simp only [hrk, Bool.and_true] at hstrict
-    cases hl : kvs.lookup p.1 with
-    | none =>
-      simp only [hl, hrk, hstrict, Bool.not_false, Bool.and_self, if_true] at hf
-      split at hf <;> cases hf
-    | some x => simp [hasKey, hl]
-  · -- every declared member that is present
-    intro p hp
-    have hf := hfield p hp
-    have hstrict := propsStrict_mem hs hp
-    cases hl : kvs.lookup p.1 with
-    | none => simp
-    | some x =>
-      simp only [hl] at hf
-      simp only [Bool.or_eq_true, Bool.and_eq_true, Bool.not_eq_true']
-      split at hf
-      · rename_i hcond
-        simp only [Bool.and_eq_true, Bool.not_eq_true', Bool.and_eq_false_iff] at hcond
-        obtain ⟨⟨hnull, hnreq⟩, hnc⟩ := hcond
-        left
-        refine ⟨?_, hnull⟩
-        rcases hnreq with hr | hr
-        · exact hr
-        · -- the member is `const` with a default: then its IR is `const`, contradiction
-          simp only [Bool.not_eq_false'] at hr
-          rw [isConst_tr] at hnc
-          cases hp2 : p.2 <;> simp [hp2, constDefaulted] at hr hnc
-      · right
-        exact sd_member st o re defs h hdo g ih p.2 x (propsInSubset_mem hps hp)
-          (propsOneOfFree_mem hof hp) hstrict.2 hf
-  · -- extra members
-    have hn2 : (List.map (fun p : List Char × Schema =>
-        (p.1, req.contains p.1 && !constDefaulted st p.2, fieldCons st o p.2, tr st o .plain p.2)) props).map
-          (·.1) = props.map (·.1) := by
-      rw [List.map_map]; rfl
-    obtain ⟨_, _, _, _, _, _, _, e3⟩ := h
-    cases addl with
-    | absent => simp
-    | allow => simp
-    | forbid =>
-      simp only [e3, beq_self_eq_true, if_true] at hextra
-      rw [hn2, ofBool_eq_accept] at hextra
-      simpa using hextra
-
-theorem sd_all (h : TableOK st) (hd : defsInSubset defs = true)
-    (hdo : Schema.propsOneOfFree defs = true)
-    (hds : defsStrict st o.fieldConstraints defs = true) : ∀ g, SDle st o re defs g := by
-  intro g
-  induction g with
-  | zero =>
-    intro g' hg' ctx s v _ _ _ hacc
-    have : g' = 0 := by omega
-    subst this
-    simp [acceptsTy] at hacc
-  | succ g ih =>
-    intro g' hg'
-    by_cases hle : g' ≤ g
-    · exact ih g' hle
-    · have : g' = g + 1 := by omega
-      subst this
-      intro ctx s v hsub hof hs hacc
-      cases s with
-      | any => simp [validJN]
-      | null =>
-        simp only [tr, acceptsTy] at hacc
-        simp only [validJN]
-        cases hn : v.isNull <;> simp [hn] at hacc ⊢
-      | scalar ty n b =>
-        simp only [Schema.inSubset] at hsub
-        exact sd_scalar st o re defs h g ctx ty n b v hsub hs hacc
-      | enum vals =>
-        simp only [tr, acceptsTy, ofBool_eq_accept] at hacc
-        simpa [validJN] using hacc
-      | const a =>
-        simp only [tr, acceptsTy, ofBool_eq_accept] at hacc
-        simpa [validJN] using hacc
-      | array items mn mx =>
-        simp only [Schema.inSubset] at hsub
-        simp only [Schema.oneOfFree] at hof
-        exact sd_array st o re defs h hdo g ih ctx items mn mx v hsub hof hs hacc
-      | object props req addl => exact sd_object st o re defs h hdo g ih ctx props req addl v hsub hof hs hacc
-      | dict value =>
-        simp only [Schema.inSubset] at hsub
-        simp only [Schema.oneOfFree] at hof
-        simp only [strictSafe] at hs
-        cases v <;> simp only [tr, acceptsTy, reduceCtorEq] at hacc
-        rename_i kvs
-        rw [all_eq_accept] at hacc
-        simp only [validJN, List.all_eq_true]
-        intro kv hkv
-        exact ih g (Nat.le_refl _) .plain value kv.2 hsub hof hs
-          (hacc _ (List.mem_map.mpr ⟨kv, hkv, rfl⟩))
-      | ref n =>
-        simp only [tr, acceptsTy, lookup_trDefs] at hacc
-        simp only [validJN]
-        cases hl : defs.lookup n with
-        | none => simp [hl] at hacc
-        | some t =>
-          simp only [hl, Option.map] at hacc
-          exact ih g (Nat.le_refl _) .top t v (defs_lookup_inSubset hd hl)
-            (propsOneOfFree_mem (p := (n, t)) hdo (lookup_mem defs n t hl)) (defsStrict_lookup hds hl) hacc
-      | anyOf alts =>
-        simp only [Schema.inSubset] at hsub
-        simp only [Schema.oneOfFree] at hof
-        simp only [strictSafe] at hs
-        simp only [tr, acceptsTy, trAlts_eq_map, List.map_map] at hacc
-        rw [any_eq_accept] at hacc
-        obtain ⟨t, ht, hta⟩ := hacc
-        simp only [List.mem_map, Function.comp] at ht
-        obtain ⟨a, ha, rfl⟩ := ht
-        simp only [validJN, List.any_eq_true]
-        exact ⟨a, ha, ih g (Nat.le_refl _) (.item false) a v (allInSubset_mem hsub ha)
-          (allOneOfFree_mem hof ha) (altsStrict_mem hs ha) hta⟩
-      | oneOf alts => simp [Schema.oneOfFree] at hof
-      | allOf refs props req xreq => simp [Schema.oneOfFree] at hof
-
-
-end
-end Dcg.Proofs.Sem
